@@ -1,8 +1,15 @@
-(* C06 - stage 2 of compile_scope_correct (any number of nested function levels): the stateful compiler
-   compile_scope (ScopeComp.v) equals the pure n-level compiler nstmt / nlist of ScopeDefsN.v on the fragment
-   stmt5w, for an ARBITRARY stack of enclosing compilers.  PROOFS ONLY (auxiliary definitions: the fragment stmt5w,
-   `noret` = no return outside a function body, `retok` = the innermost compiler may compile a return, the invariant
-   `ninv` of the pure compiler, the record update `with_clu`). *)
+(* C06 - stages 2-4 of compile_scope_correct (any number of nested function levels; `for` loops, if / else, break,
+   continue): the stateful compiler compile_scope (ScopeComp.v) equals the pure n-level compiler nstmt / nlist of
+   ScopeDefsN.v on the fragment stmt6w, for an ARBITRARY stack of enclosing compilers.  PROOFS ONLY (auxiliary
+   definitions: the fragments stmt5w / stmt6w, `noret` = no return outside a function body, `nobrk` = no break,
+   `retok` = the innermost compiler may compile a return, the invariant `ninv` of the pure compiler, the record updates
+   `with_clu` / `with_club`, the pending-break bookkeeping `ixs` / `bpm`).
+
+   break is a forward jump that the stateful compiler patches at the end of the loop (pop_loop); the pure compiler
+   is given the landing offset (lc_exit) in advance.  With lc_exit = 0 the pure compiler emits exactly the unpatched
+   code (`IJump (0 - ..) = IJump 0`); `res_ok` below says: the stateful code is the pure code for exit 0, the head of
+   fc_breaks grows by the instruction indices `ixs` of a mask over that code, and for EVERY exit X the pure code is
+   the exit-0 code patched at the mask (`bpm X`): this is what pop_loop computes. *)
 From Coq Require Import List Arith Bool String ZArith NArith Lia.
 From YV Require Import Show Upvalues Cells ScopeLang ScopeComp ScopeSim ScopeDefs2 ScopeComp2 ScopeDefsN.
 Import ListNotations.
@@ -10,7 +17,41 @@ Import Gen.
 Open Scope nat_scope.
 
 (* ------------------------------------------------------------------------------------------ *)
-(* Part 0: the fragment without side restrictions, its nested induction principle *)
+(* Part 0: the fragments without side restrictions, their nested induction principles *)
+
+(* nested induction over all statements *)
+Lemma stmt_nind : forall P : stmt -> Prop,
+  (forall x e, P (SDecl x e)) -> (forall x e, P (SAssign x e)) -> (forall e, P (SPrint e)) -> (forall e, P (SExpr e)) ->
+  (forall b, Forall P b -> P (SBlock b)) ->
+  (forall f ps b, Forall P b -> P (SFun f ps b)) -> (forall x ps b, Forall P b -> P (SLam x ps b)) ->
+  (forall i n b, Forall P b -> P (SLoop i n b)) ->
+  (forall a c t e, Forall P t -> Forall P e -> P (SIf a c t e)) ->
+  P SBreak -> P SContinue -> (forall e, P (SReturn e)) -> (forall e, P (SThrow e)) ->
+  (forall b x h, Forall P b -> Forall P h -> P (STry b x h)) -> (forall b, Forall P b -> P (SFiber b)) ->
+  (forall v e, P (SVPush v e)) -> forall s, P s.
+Proof.
+  intros P H1 H2 H3 H4 H5 H6 H7 H8 H9 H10 H11 H12 H13 H14 H15 H16. fix IH 1. intros s.
+  assert (G : forall l, Forall P l).
+  { refine (fix go (l : list stmt) : Forall P l := match l with [] => Forall_nil P | a :: r => _ end).
+    constructor; [apply IH|apply go]. }
+  destruct s.
+  - apply H1. - apply H2. - apply H3. - apply H4. - apply H5, G. - apply H6, G. - apply H7, G. - apply H8, G.
+  - apply H9; apply G. - apply H10. - apply H11. - apply H12. - apply H13. - apply H14; apply G. - apply H15, G. - apply H16.
+Qed.
+
+Lemma forallb_Forall_imp : forall (A : Type) (f g : A -> bool) l,
+  Forall (fun a => f a = true -> g a = true) l -> forallb f l = true -> forallb g l = true.
+Proof.
+  intros A f g l H. induction H as [|a r Ha Hr IH]; intros Hf; [reflexivity|].
+  cbn in Hf |- *. apply andb_prop in Hf as [H1 H2]. apply andb_true_intro. split; auto.
+Qed.
+
+Lemma forallb_Forall_P : forall (A : Type) (f : A -> bool) (P : A -> Prop) l,
+  Forall (fun a => f a = true -> P a) l -> forallb f l = true -> Forall P l.
+Proof.
+  intros A f P l H. induction H as [|a r Ha Hr IH]; intros Hf; [constructor|].
+  cbn in Hf. apply andb_prop in Hf as [H1 H2]. constructor; auto.
+Qed.
 
 Fixpoint stmt5w (s : stmt) : bool :=
   match s with
@@ -20,11 +61,34 @@ Fixpoint stmt5w (s : stmt) : bool :=
   | _ => false
   end.
 
+(* stages 3 and 4: loops, if / else, break, continue *)
+Fixpoint stmt6w (s : stmt) : bool :=
+  match s with
+  | SDecl _ e | SAssign _ e | SPrint e | SExpr e | SReturn e => expr2 e
+  | SBlock b => forallb stmt6w b
+  | SFun _ _ b | SLam _ _ b => forallb stmt6w b
+  | SLoop _ _ b => forallb stmt6w b
+  | SIf a c t e => expr2 a && expr2 c && forallb stmt6w t && forallb stmt6w e
+  | SBreak | SContinue => true
+  | _ => false
+  end.
+
 (* no `return` outside a function body (a return at script level is a compile error) *)
 Fixpoint noret (s : stmt) : bool :=
   match s with
   | SReturn _ => false
   | SBlock b => forallb noret b
+  | SLoop _ _ b => forallb noret b
+  | SIf _ _ t e => forallb noret t && forallb noret e
+  | _ => true
+  end.
+
+(* no `break` at all (function bodies included) *)
+Fixpoint nobrk (s : stmt) : bool :=
+  match s with
+  | SBreak => false
+  | SBlock b | SFun _ _ b | SLam _ _ b | SLoop _ _ b => forallb nobrk b
+  | SIf _ _ t e => forallb nobrk t && forallb nobrk e
   | _ => true
   end.
 
@@ -40,57 +104,109 @@ Lemma stmt5w_ind : forall P : stmt -> Prop,
   (forall x ps b, forallb stmt5w b = true -> Forall P b -> P (SLam x ps b)) ->
   forall s, stmt5w s = true -> P s.
 Proof.
-  intros P Hd Ha Hp He Hr Hb Hf Hl. fix IH 1. intros s H.
-  assert (G : forall l, forallb stmt5w l = true -> Forall P l).
-  { refine (fix go (l : list stmt) : forallb stmt5w l = true -> Forall P l :=
-               match l with
-               | [] => fun _ => Forall_nil P
-               | a :: r => fun H0 => _
-               end).
-    cbn in H0. apply andb_prop in H0. destruct H0 as [H1 H2].
-    constructor; [apply IH; exact H1|apply go; exact H2]. }
-  destruct s; cbn in H; try discriminate.
-  - apply Hd; exact H.
-  - apply Ha; exact H.
-  - apply Hp; exact H.
-  - apply He; exact H.
-  - apply Hb; [exact H|apply G; exact H].
-  - apply Hf; [exact H|apply G; exact H].
-  - apply Hl; [exact H|apply G; exact H].
-  - apply Hr; exact H.
+  intros P Hd Ha Hp He Hr Hb Hf Hl s. induction s using stmt_nind; cbn [stmt5w]; intros Hs; try discriminate.
+  - now apply Hd. - now apply Ha. - now apply Hp. - now apply He.
+  - apply Hb; [exact Hs|]. eapply forallb_Forall_P; eauto.
+  - apply Hf; [exact Hs|]. eapply forallb_Forall_P; eauto.
+  - apply Hl; [exact Hs|]. eapply forallb_Forall_P; eauto.
+  - now apply Hr.
 Qed.
+
+Lemma stmt6w_ind : forall P : stmt -> Prop,
+  (forall x e, expr2 e = true -> P (SDecl x e)) -> (forall x e, expr2 e = true -> P (SAssign x e)) ->
+  (forall e, expr2 e = true -> P (SPrint e)) -> (forall e, expr2 e = true -> P (SExpr e)) ->
+  (forall e, expr2 e = true -> P (SReturn e)) ->
+  (forall b, forallb stmt6w b = true -> Forall P b -> P (SBlock b)) ->
+  (forall f ps b, forallb stmt6w b = true -> Forall P b -> P (SFun f ps b)) ->
+  (forall x ps b, forallb stmt6w b = true -> Forall P b -> P (SLam x ps b)) ->
+  (forall i n b, forallb stmt6w b = true -> Forall P b -> P (SLoop i n b)) ->
+  (forall a c t e, expr2 a = true -> expr2 c = true -> forallb stmt6w t = true -> forallb stmt6w e = true ->
+                   Forall P t -> Forall P e -> P (SIf a c t e)) ->
+  P SBreak -> P SContinue ->
+  forall s, stmt6w s = true -> P s.
+Proof.
+  intros P Hd Ha Hp He Hr Hb Hf Hl Hlo Hif Hbr Hco s. induction s using stmt_nind; cbn [stmt6w]; intros Hs; try discriminate.
+  - now apply Hd. - now apply Ha. - now apply Hp. - now apply He.
+  - apply Hb; [exact Hs|]. eapply forallb_Forall_P; eauto.
+  - apply Hf; [exact Hs|]. eapply forallb_Forall_P; eauto.
+  - apply Hl; [exact Hs|]. eapply forallb_Forall_P; eauto.
+  - apply Hlo; [exact Hs|]. eapply forallb_Forall_P; eauto.
+  - apply andb_prop in Hs as [Hs He']. apply andb_prop in Hs as [Hs Ht]. apply andb_prop in Hs as [Ha' Hc'].
+    apply Hif; auto; eapply forallb_Forall_P; eauto.
+  - exact Hbr. - exact Hco.
+  - now apply Hr.
+Qed.
+
+Ltac fb_imp H := eapply forallb_Forall_imp; [|exact H]; eapply Forall_impl; [|eassumption]; cbv beta; intros; eauto.
 
 Lemma stmt5_stmt5w : forall s i t, stmt5 i t s = true -> stmt5w s = true.
 Proof.
-  fix IH 1. intros s i t H.
-  assert (G : forall l i t, forallb (stmt5 i t) l = true -> forallb stmt5w l = true).
-  { refine (fix go (l : list stmt) : forall i t, forallb (stmt5 i t) l = true -> forallb stmt5w l = true :=
-               match l with
-               | [] => fun _ _ _ => eq_refl
-               | a :: r => fun i0 t0 H0 => _
-               end).
-    cbn in H0 |- *. apply andb_prop in H0. destruct H0 as [H1 H2].
-    apply andb_true_intro. split; [exact (IH a i0 t0 H1)|exact (go r i0 t0 H2)]. }
-  destruct s; cbn in H |- *; try discriminate; try exact H.
-  - exact (G _ _ _ H).
-  - exact (G _ _ _ H).
-  - apply andb_prop in H. destruct H as [H _]. exact (G _ _ _ H).
-  - apply andb_prop in H. destruct H as [_ H]. exact H.
+  induction s using stmt_nind; intros i0 t0 Hs; cbn [stmt5 stmt5w] in *; try discriminate; try exact Hs.
+  - fb_imp Hs.
+  - fb_imp Hs.
+  - apply andb_prop in Hs as [Hs _]. fb_imp Hs.
+  - apply andb_prop in Hs as [_ Hs]. exact Hs.
+Qed.
+
+Lemma stmt5w_stmt6w : forall s, stmt5w s = true -> stmt6w s = true.
+Proof.
+  induction s using stmt_nind; intros Hs; cbn [stmt5w stmt6w] in *; try discriminate; try exact Hs; fb_imp Hs.
+Qed.
+
+Lemma stmt5w_nobrk : forall s, stmt5w s = true -> nobrk s = true.
+Proof.
+  induction s using stmt_nind; intros Hs; cbn [stmt5w nobrk] in *; try discriminate; try reflexivity; fb_imp Hs.
+Qed.
+
+Lemma stmt6_stmt6w : forall s j i t l, stmt6 j i t l s = true -> stmt6w s = true.
+Proof.
+  induction s using stmt_nind; intros j0 i0 t0 l0 Hs; cbn [stmt6 stmt6w] in *; try discriminate; try exact Hs; try reflexivity.
+  - fb_imp Hs.
+  - fb_imp Hs.
+  - apply andb_prop in Hs as [Hs _]. fb_imp Hs.
+  - fb_imp Hs.
+  - apply andb_prop in Hs as [Hs He']. apply andb_prop in Hs as [Hs Ht]. rewrite Hs. cbn [andb].
+    apply andb_true_intro. split; [fb_imp Ht|fb_imp He'].
+  - apply andb_prop in Hs as [_ Hs]. exact Hs.
+Qed.
+
+Lemma stmt5_stmt6 : forall s i t j l, stmt5 i t s = true -> stmt6 j i t l s = true.
+Proof.
+  induction s using stmt_nind; intros i0 t0 j0 l0 Hs; cbn [stmt5 stmt6] in *; try discriminate; try exact Hs.
+  - fb_imp Hs.
+  - fb_imp Hs.
+  - apply andb_prop in Hs as [Hs Hm]. rewrite Hm, andb_true_r. fb_imp Hs.
+Qed.
+
+(* the script-level fragments have no `return` outside a function body; without `jumps`, no break *)
+Lemma stmt6_noret : forall s j t l, stmt6 j false t l s = true -> noret s = true.
+Proof.
+  induction s using stmt_nind; intros j0 t0 l0 Hs; cbn [stmt6 noret] in *; try discriminate; try reflexivity.
+  - fb_imp Hs.
+  - fb_imp Hs.
+  - apply andb_prop in Hs as [Hs He']. apply andb_prop in Hs as [Hs Ht].
+    apply andb_true_intro. split; [fb_imp Ht|fb_imp He'].
 Qed.
 
 Lemma stmt5_noret : forall s t, stmt5 false t s = true -> noret s = true.
+Proof. intros s t H. eapply stmt6_noret. apply (stmt5_stmt6 s false t false false H). Qed.
+
+Lemma stmt6_nobrk : forall s i t l, stmt6 false i t l s = true -> nobrk s = true.
 Proof.
-  fix IH 1. intros s t H.
-  assert (G : forall l t, forallb (stmt5 false t) l = true -> forallb noret l = true).
-  { refine (fix go (l : list stmt) : forall t, forallb (stmt5 false t) l = true -> forallb noret l = true :=
-               match l with
-               | [] => fun _ _ => eq_refl
-               | a :: r => fun t0 H0 => _
-               end).
-    cbn in H0 |- *. apply andb_prop in H0. destruct H0 as [H1 H2].
-    apply andb_true_intro. split; [exact (IH a t0 H1)|exact (go r t0 H2)]. }
-  destruct s; cbn in H |- *; try discriminate; try reflexivity.
-  exact (G _ _ H).
+  induction s using stmt_nind; intros i0 t0 l0 Hs; cbn [stmt6 nobrk] in *; try discriminate; try reflexivity.
+  - fb_imp Hs.
+  - fb_imp Hs.
+  - apply andb_prop in Hs as [Hs _]. fb_imp Hs.
+  - fb_imp Hs.
+  - apply andb_prop in Hs as [Hs He']. apply andb_prop in Hs as [Hs Ht].
+    apply andb_true_intro. split; [fb_imp Ht|fb_imp He'].
+Qed.
+
+Lemma forallb_imp : forall (A : Type) (f g : A -> bool) l, (forall a, f a = true -> g a = true) ->
+  forallb f l = true -> forallb g l = true.
+Proof.
+  intros A f g l H. induction l as [|a r IH]; intros Hf; [reflexivity|].
+  cbn in Hf |- *. apply andb_prop in Hf as [H1 H2]. apply andb_true_intro. split; auto.
 Qed.
 
 (* ------------------------------------------------------------------------------------------ *)
@@ -370,36 +486,32 @@ Proof.
   - cbn in Hb. apply andb_prop in Hb as [_ Hr]. now apply IH.
 Qed.
 
-(* the local `fix` nl of nstmt = nlist, the local nfun = nfunc *)
-Lemma nl_eq : forall cf l dd L U E fs,
-  (fix go (l : list stmt) (dd : nat) (L : list local) (U : ups_t) (E : list lev) (fs : list func) : option nres :=
+(* the local `fix` nl of nstmt = nlist, the local nblock = nblk, the local nfun = nfunc *)
+Lemma nl_eq : forall cf l dd L U E fs pos lc,
+  (fix go (l : list stmt) (dd : nat) (L : list local) (U : ups_t) (E : list lev) (fs : list func)
+          (pos : nat) (lc : option lctx) : option nres :=
     match l with
     | [] => Some ([], L, U, E, fs)
-    | a :: r => match nstmt cf a L dd U E fs with
+    | a :: r => match nstmt cf a L dd U E fs pos lc with
                 | Some (ca, L1, U1, E1, fs1) =>
-                    match go r dd L1 U1 E1 fs1 with
+                    match go r dd L1 U1 E1 fs1 (pos + code_size ca) lc with
                     | Some (cr, L2, U2, E2, fs2) => Some ((ca ++ cr)%list, L2, U2, E2, fs2)
                     | None => None
                     end
                 | None => None
                 end
-    end) l dd L U E fs = nlist cf l dd L U E fs.
+    end) l dd L U E fs pos lc = nlist cf l dd L U E fs pos lc.
 Proof.
-  intros cf l. induction l as [|a r IH]; intros dd L U E fs; [reflexivity|]. cbn [nlist].
-  destruct (nstmt cf a L dd U E fs) as [[[[[ca L1] U1] E1] fs1]|]; [|reflexivity]. now rewrite IH.
+  intros cf l. induction l as [|a r IH]; intros dd L U E fs pos lc; [reflexivity|]. cbn [nlist].
+  destruct (nstmt cf a L dd U E fs pos lc) as [[[[[ca L1] U1] E1] fs1]|]; [|reflexivity]. now rewrite IH.
 Qed.
 
-Lemma nstmt_block : forall cf b L d U E fs,
-  nstmt cf (SBlock b) L d U E fs =
-  match nlist cf b (S d) L U E fs with
-  | Some (cb, L', U', E', fs') =>
-      let ops := scope_end_ops L' d in Some ((cb ++ ops)%list, skipn (List.length ops) L', U', E', fs')
-  | None => None
-  end.
-Proof. intros cf b L d U E fs. cbn [nstmt]. rewrite nl_eq. reflexivity. Qed.
+Lemma nstmt_block : forall cf b L d U E fs pos lc,
+  nstmt cf (SBlock b) L d U E fs pos lc = nblk cf b d L U E fs pos lc.
+Proof. intros. unfold nblk. cbn [nstmt]. rewrite nl_eq. reflexivity. Qed.
 
-Lemma nstmt_fun : forall cf f ps b L d U E fs,
-  nstmt cf (SFun f ps b) L d U E fs =
+Lemma nstmt_fun : forall cf f ps b L d U E fs pos lc,
+  nstmt cf (SFun f ps b) L d U E fs pos lc =
   if d =? 0 then
     match nfunc cf ps b L U E fs with
     | Some (ci, L', U', E', fs') => Some ([ci; IDefineGlobal f], L', U', E', fs')
@@ -413,13 +525,13 @@ Lemma nstmt_fun : forall cf f ps b L d U E fs,
     | None => None
     end.
 Proof.
-  intros cf f ps b L d U E fs. cbn [nstmt]. unfold nfunc.
+  intros cf f ps b L d U E fs pos lc. cbn [nstmt]. unfold nfunc.
   destruct (bparams cf ps [mkLocal None (Some 0) false]) as [Lp|]; [|reflexivity].
   rewrite !nl_eq. reflexivity.
 Qed.
 
-Lemma nstmt_lam : forall cf x ps b L d U E fs,
-  nstmt cf (SLam x ps b) L d U E fs =
+Lemma nstmt_lam : forall cf x ps b L d U E fs pos lc,
+  nstmt cf (SLam x ps b) L d U E fs pos lc =
   if d =? 0 then
     match nfunc cf ps b L U E fs with
     | Some (ci, L', U', E', fs') => Some ([ci; IDefineGlobal x], L', U', E', fs')
@@ -433,22 +545,90 @@ Lemma nstmt_lam : forall cf x ps b L d U E fs,
     | _ => None
     end.
 Proof.
-  intros cf x ps b L d U E fs. cbn [nstmt]. unfold nfunc.
+  intros cf x ps b L d U E fs pos lc. cbn [nstmt]. unfold nfunc.
   destruct (bparams cf ps [mkLocal None (Some 0) false]) as [Lp|]; [|reflexivity].
   rewrite !nl_eq. reflexivity.
 Qed.
 
-Definition inv_goal (cf : cfg) (s : stmt) : Prop := forall L d U E fs code L' U' E' fs',
-  nstmt cf s L d U E fs = Some (code, L', U', E', fs') -> ninv U E U' E'.
+(* the loop: locals of the hidden iterator and the loop variable, where the body block starts *)
+Definition loop_locals (i : name) (d : nat) (L : list local) : list local :=
+  mkLocal None (Some (S d)) false :: mkLocal (Some i) (Some (S d)) false :: L.
+
+Lemma nstmt_loop : forall cf i n b L d U E fs pos lc,
+  nstmt cf (SLoop i n b) L d U E fs pos lc =
+  if dup_in_scope L i (S d) then None
+  else if List.length L =? c_locals_max cf then None
+  else if S (List.length L) =? c_locals_max cf then None
+  else
+    let lv := List.length L in
+    let start := pos + code_size (loop_pre n) in
+    let posb := start + code_size (loop_head lv 0) in
+    match nblk cf b (S d) (loop_locals i d L) U E fs posb (Some (mkLctx start (S d) 0)) with
+    | Some (c0, _, _, _, _) =>
+        let szb := code_size c0 in
+        match nblk cf b (S d) (loop_locals i d L) U E fs posb (Some (mkLctx start (S d) (posb + szb + 3 + 1))) with
+        | Some (cblock, L1, U', E', fs') =>
+            let ops := scope_end_ops L1 d in
+            Some ((loop_pre n ++ loop_head lv (1 + szb + 3) ++ cblock
+                   ++ [ILoop (code_size (loop_head lv 0) + szb + 3); IPop] ++ ops)%list,
+                  skipn (List.length ops) L1, U', E', fs')
+        | None => None
+        end
+    | None => None
+    end.
+Proof.
+  intros cf i n b L d U E fs pos lc. unfold nblk, loop_locals. cbn [nstmt]. rewrite !nl_eq. reflexivity.
+Qed.
+
+Lemma nstmt_if : forall cf a c t e L d U E fs pos lc,
+  nstmt cf (SIf a c t e) L d U E fs pos lc =
+  match nexpr cf L a U E with
+  | Some (ca, U1, E1) =>
+      match nexpr cf L c U1 E1 with
+      | Some (cc, U2, E2) =>
+          let post := pos + code_size ca + code_size cc + code_size [ILess; IJumpIfFalse 0; IPop] in
+          match nblk cf t d L U2 E2 fs post lc with
+          | Some (ct, L1, U3, E3, fs1) =>
+              let pose := post + code_size ct + code_size [IJump 0; IPop] in
+              match nblk cf e d L1 U3 E3 fs1 pose lc with
+              | Some (cel, L2, U4, E4, fs2) =>
+                  Some ((ca ++ cc ++ [ILess; IJumpIfFalse (1 + code_size ct + 3); IPop] ++ ct
+                         ++ [IJump (1 + code_size cel); IPop] ++ cel)%list, L2, U4, E4, fs2)
+              | None => None
+              end
+          | None => None
+          end
+      | None => None
+      end
+  | None => None
+  end.
+Proof.
+  intros cf a c t e L d U E fs pos lc. unfold nblk. cbn [nstmt].
+  destruct (nexpr cf L a U E) as [[[ca U1] E1]|]; [|reflexivity].
+  destruct (nexpr cf L c U1 E1) as [[[cc U2] E2]|]; [|reflexivity].
+  rewrite nl_eq. destruct (nlist cf t (S d) L U2 E2 fs _ lc) as [[[[[ct L1] U3] E3] fs1]|]; [|reflexivity].
+  rewrite nl_eq. reflexivity.
+Qed.
+
+Definition inv_goal (cf : cfg) (s : stmt) : Prop := forall L d U E fs pos lc code L' U' E' fs',
+  nstmt cf s L d U E fs pos lc = Some (code, L', U', E', fs') -> ninv U E U' E'.
 
 Lemma nlist_inv_aux : forall cf b, Forall (inv_goal cf) b ->
-  forall d L U E fs code L' U' E' fs', nlist cf b d L U E fs = Some (code, L', U', E', fs') -> ninv U E U' E'.
+  forall d L U E fs pos lc code L' U' E' fs', nlist cf b d L U E fs pos lc = Some (code, L', U', E', fs') -> ninv U E U' E'.
 Proof.
-  intros cf b H. induction H as [|a r Ha Hr IH]; intros d L U E fs code L' U' E' fs'; cbn [nlist].
+  intros cf b H. induction H as [|a r Ha Hr IH]; intros d L U E fs pos lc code L' U' E' fs'; cbn [nlist].
   - intros [= <- <- <- <- <-]. apply ninv_refl.
-  - destruct (nstmt cf a L d U E fs) as [[[[[ca L1] U1] E1] fs1]|] eqn:E1'; [|discriminate].
-    destruct (nlist cf r d L1 U1 E1 fs1) as [[[[[cr L2] U2] E2] fs2]|] eqn:E2'; [|discriminate].
+  - destruct (nstmt cf a L d U E fs pos lc) as [[[[[ca L1] U1] E1] fs1]|] eqn:E1'; [|discriminate].
+    destruct (nlist cf r d L1 U1 E1 fs1 (pos + code_size ca) lc) as [[[[[cr L2] U2] E2] fs2]|] eqn:E2'; [|discriminate].
     intros [= <- <- <- <- <-]. eapply ninv_trans; [eapply Ha; eauto|eapply IH; eauto].
+Qed.
+
+Lemma nblk_inv_aux : forall cf b, Forall (inv_goal cf) b ->
+  forall d L U E fs pos lc code L' U' E' fs', nblk cf b d L U E fs pos lc = Some (code, L', U', E', fs') -> ninv U E U' E'.
+Proof.
+  intros cf b H d L U E fs pos lc code L' U' E' fs'. unfold nblk.
+  destruct (nlist cf b (S d) L U E fs pos lc) as [[[[[cb L1] U1] E1] fs1]|] eqn:El; [|discriminate].
+  cbv zeta. intros [= <- <- <- <- <-]. eapply nlist_inv_aux; eauto.
 Qed.
 
 (* a function: the invariant for the levels enclosing the definition, and the locals of the function the definition
@@ -459,101 +639,214 @@ Lemma nfunc_inv_aux : forall cf ps b, Forall (inv_goal cf) b ->
 Proof.
   intros cf ps b Hb L1 U E fs ci L' U' E' fs'. unfold nfunc.
   destruct (bparams cf ps [mkLocal None (Some 0) false]) as [Lp|]; [|discriminate].
-  destruct (nlist cf b 1 Lp [] (mkLev L1 U :: E) fs) as [[[[[cb Lb] Ub] Eb] fs1]|] eqn:El; [|discriminate].
+  destruct (nlist cf b 1 Lp [] (mkLev L1 U :: E) fs 0 None) as [[[[[cb Lb] Ub] Eb] fs1]|] eqn:El; [|discriminate].
   cbn [nclose]. destruct Eb as [|lv E1]; [discriminate|]. intros [= <- <- <- <- <-].
-  destruct (nlist_inv_aux cf b Hb _ _ _ _ _ _ _ _ _ _ El) as [A B].
+  destruct (nlist_inv_aux cf b Hb _ _ _ _ _ _ _ _ _ _ _ _ El) as [A B].
   inversion A as [|? ? ? ? Hh Ht]; subst. cbn [outer_ups lv_ups lv_locals] in *.
   split; [split; [exact Ht|exact B]|exact Hh].
 Qed.
 
-Lemma nstmt_inv : forall cf s, stmt5w s = true -> forall L d U E fs code L' U' E' fs',
-  nstmt cf s L d U E fs = Some (code, L', U', E', fs') -> ninv U E U' E'.
+Lemma nstmt_inv : forall cf s, stmt6w s = true -> forall L d U E fs pos lc code L' U' E' fs',
+  nstmt cf s L d U E fs pos lc = Some (code, L', U', E', fs') -> ninv U E U' E'.
 Proof.
-  intros cf s Hs. change (inv_goal cf s). pattern s. revert s Hs. apply stmt5w_ind.
-  - intros x e He L d U E fs code L' U' E' fs'. cbn [nstmt]. destruct (d =? 0).
+  intros cf s Hs. change (inv_goal cf s). pattern s. revert s Hs. apply stmt6w_ind.
+  - intros x e He L d U E fs pos lc code L' U' E' fs'. cbn [nstmt]. destruct (d =? 0).
     + destruct (nexpr cf L e U E) as [[[ce U1] E1]|] eqn:Ee; [|discriminate].
       intros [= <- <- <- <- <-]. eapply nexpr_inv; eauto.
     + destruct (dup_in_scope L x d); [discriminate|]. destruct (List.length L =? c_locals_max cf); [discriminate|].
       destruct (nexpr cf _ e U E) as [[[ce U1] E1]|] eqn:Ee; [|discriminate].
       intros [= <- <- <- <- <-]. eapply nexpr_inv; eauto.
-  - intros x e He L d U E fs code L' U' E' fs'. cbn [nstmt].
+  - intros x e He L d U E fs pos lc code L' U' E' fs'. cbn [nstmt].
     destruct (rvn cf L U E x) as [[[r U0] E0]|] eqn:Er; [|discriminate].
     destruct (nexpr cf L e U0 E0) as [[[ce U1] E1]|] eqn:Ee; [|discriminate].
     intros [= <- <- <- <- <-]. eapply ninv_trans; [eapply rvn_inv; eauto|eapply nexpr_inv; eauto].
-  - intros e He L d U E fs code L' U' E' fs'. cbn [nstmt].
+  - intros e He L d U E fs pos lc code L' U' E' fs'. cbn [nstmt].
     destruct (nexpr cf L e U E) as [[[ce U1] E1]|] eqn:Ee; [|discriminate].
     intros [= <- <- <- <- <-]. eapply nexpr_inv; eauto.
-  - intros e He L d U E fs code L' U' E' fs'. cbn [nstmt].
+  - intros e He L d U E fs pos lc code L' U' E' fs'. cbn [nstmt].
     destruct (nexpr cf L e U E) as [[[ce U1] E1]|] eqn:Ee; [|discriminate].
     intros [= <- <- <- <- <-]. eapply nexpr_inv; eauto.
-  - intros e He L d U E fs code L' U' E' fs'. cbn [nstmt].
+  - intros e He L d U E fs pos lc code L' U' E' fs'. cbn [nstmt].
     destruct (nexpr cf L e U E) as [[[ce U1] E1]|] eqn:Ee; [|discriminate].
     intros [= <- <- <- <- <-]. eapply nexpr_inv; eauto.
-  - intros b Hb IH L d U E fs code L' U' E' fs'. rewrite nstmt_block.
-    destruct (nlist cf b (S d) L U E fs) as [[[[[cb L1] U1] E1] fs1]|] eqn:El; [|discriminate].
-    cbv zeta. intros [= <- <- <- <- <-]. eapply nlist_inv_aux; eauto.
-  - intros f ps b Hb IH L d U E fs code L' U' E' fs'. rewrite nstmt_fun. destruct (d =? 0).
+  - intros b Hb IH L d U E fs pos lc code L' U' E' fs'. rewrite nstmt_block. apply nblk_inv_aux; exact IH.
+  - intros f ps b Hb IH L d U E fs pos lc code L' U' E' fs'. rewrite nstmt_fun. destruct (d =? 0).
     + destruct (nfunc cf ps b L U E fs) as [[[[[ci L1] U1] E1] fs1]|] eqn:Ef; [|discriminate].
       intros [= <- <- <- <- <-]. eapply nfunc_inv_aux; eauto.
     + destruct (dup_in_scope L f d); [discriminate|]. destruct (List.length L =? c_locals_max cf); [discriminate|].
       destruct (nfunc cf ps b _ U E fs) as [[[[[ci L1] U1] E1] fs1]|] eqn:Ef; [|discriminate].
       intros [= <- <- <- <- <-]. eapply nfunc_inv_aux; eauto.
-  - intros x ps b Hb IH L d U E fs code L' U' E' fs'. rewrite nstmt_lam. destruct (d =? 0).
+  - intros x ps b Hb IH L d U E fs pos lc code L' U' E' fs'. rewrite nstmt_lam. destruct (d =? 0).
     + destruct (nfunc cf ps b L U E fs) as [[[[[ci L1] U1] E1] fs1]|] eqn:Ef; [|discriminate].
       intros [= <- <- <- <- <-]. eapply nfunc_inv_aux; eauto.
     + destruct (dup_in_scope L x d); [discriminate|]. destruct (List.length L =? c_locals_max cf); [discriminate|].
       destruct (nfunc cf ps b _ U E fs) as [[[[[ci L1] U1] E1] fs1]|] eqn:Ef; [|discriminate].
       destruct L1 as [|l0 L1]; [discriminate|].
       intros [= <- <- <- <- <-]. eapply nfunc_inv_aux; eauto.
+  - (* SLoop *)
+    intros i n b Hb IH L d U E fs pos lc code L' U' E' fs'. rewrite nstmt_loop.
+    destruct (dup_in_scope L i (S d)); [discriminate|]. destruct (List.length L =? c_locals_max cf); [discriminate|].
+    destruct (S (List.length L) =? c_locals_max cf); [discriminate|]. cbv zeta.
+    destruct (nblk cf b (S d) _ U E fs _ (Some (mkLctx _ _ 0))) as [[[[[c0 L0] U0] E0] fs0]|]; [|discriminate].
+    destruct (nblk cf b (S d) _ U E fs _ (Some (mkLctx _ _ (_ + 1)))) as [[[[[cb L1] U1] E1] fs1]|] eqn:E2; [|discriminate].
+    intros [= <- <- <- <- <-]. eapply nblk_inv_aux; eauto.
+  - (* SIf *)
+    intros a c t e Ha Hc Ht He IHt IHe L d U E fs pos lc code L' U' E' fs'. rewrite nstmt_if.
+    destruct (nexpr cf L a U E) as [[[ca U1] E1]|] eqn:Ea; [|discriminate].
+    destruct (nexpr cf L c U1 E1) as [[[cc U2] E2]|] eqn:Ec; [|discriminate]. cbv zeta.
+    destruct (nblk cf t d L U2 E2 fs _ lc) as [[[[[ct L1] U3] E3] fs1]|] eqn:Et; [|discriminate].
+    destruct (nblk cf e d L1 U3 E3 fs1 _ lc) as [[[[[cel L2] U4] E4] fs2]|] eqn:Ee; [|discriminate].
+    intros [= <- <- <- <- <-].
+    eapply ninv_trans; [exact (nexpr_inv cf a Ha _ _ _ _ _ _ Ea)|]. eapply ninv_trans; [exact (nexpr_inv cf c Hc _ _ _ _ _ _ Ec)|].
+    eapply ninv_trans; [exact (nblk_inv_aux cf t IHt _ _ _ _ _ _ _ _ _ _ _ _ Et)|exact (nblk_inv_aux cf e IHe _ _ _ _ _ _ _ _ _ _ _ _ Ee)].
+  - (* SBreak *)
+    intros L d U E fs pos lc code L' U' E' fs'. cbn [nstmt]. destruct lc as [l|]; [|discriminate].
+    intros [= <- <- <- <- <-]. apply ninv_refl.
+  - (* SContinue *)
+    intros L d U E fs pos lc code L' U' E' fs'. cbn [nstmt]. destruct lc as [l|]; [|discriminate].
+    intros [= <- <- <- <- <-]. apply ninv_refl.
 Qed.
 
-Lemma stmt5w_all_inv : forall cf b, forallb stmt5w b = true -> Forall (inv_goal cf) b.
+Lemma stmt6w_all_inv : forall cf b, forallb stmt6w b = true -> Forall (inv_goal cf) b.
 Proof.
   intros cf b Hb. induction b as [|a r IH]; constructor.
   - cbn in Hb. apply andb_prop in Hb as [Ha _]. unfold inv_goal. now apply nstmt_inv.
   - cbn in Hb. apply andb_prop in Hb as [_ Hr]. now apply IH.
 Qed.
 
-Lemma nlist_inv : forall cf b, forallb stmt5w b = true -> forall d L U E fs code L' U' E' fs',
-  nlist cf b d L U E fs = Some (code, L', U', E', fs') -> ninv U E U' E'.
-Proof. intros cf b Hb. apply nlist_inv_aux. now apply stmt5w_all_inv. Qed.
+Lemma nlist_inv : forall cf b, forallb stmt6w b = true -> forall d L U E fs pos lc code L' U' E' fs',
+  nlist cf b d L U E fs pos lc = Some (code, L', U', E', fs') -> ninv U E U' E'.
+Proof. intros cf b Hb. apply nlist_inv_aux. now apply stmt6w_all_inv. Qed.
 
-Lemma nfunc_inv : forall cf ps b, forallb stmt5w b = true ->
+Lemma nblk_inv : forall cf b, forallb stmt6w b = true -> forall d L U E fs pos lc code L' U' E' fs',
+  nblk cf b d L U E fs pos lc = Some (code, L', U', E', fs') -> ninv U E U' E'.
+Proof. intros cf b Hb. apply nblk_inv_aux. now apply stmt6w_all_inv. Qed.
+
+Lemma nfunc_inv : forall cf ps b, forallb stmt6w b = true ->
   forall L1 U E fs ci L' U' E' fs', nfunc cf ps b L1 U E fs = Some (ci, L', U', E', fs') ->
   ninv U E U' E' /\ flags_up L1 L'.
-Proof. intros cf ps b Hb. apply nfunc_inv_aux. now apply stmt5w_all_inv. Qed.
+Proof. intros cf ps b Hb. apply nfunc_inv_aux. now apply stmt6w_all_inv. Qed.
 
 (* the number of enclosing levels is kept *)
 Lemma nexpr_len : forall cf e, expr2 e = true -> forall L U E ce U' E',
   nexpr cf L e U E = Some (ce, U', E') -> List.length E' = List.length E.
 Proof. intros cf e He L U E ce U' E' H. eapply ninv_length, nexpr_inv; eauto. Qed.
 
-Lemma nstmt_len : forall cf s, stmt5w s = true -> forall L d U E fs code L' U' E' fs',
-  nstmt cf s L d U E fs = Some (code, L', U', E', fs') -> List.length E' = List.length E.
-Proof. intros cf s Hs L d U E fs code L' U' E' fs' H. eapply ninv_length, nstmt_inv; eauto. Qed.
+Lemma nstmt_len : forall cf s, stmt6w s = true -> forall L d U E fs pos lc code L' U' E' fs',
+  nstmt cf s L d U E fs pos lc = Some (code, L', U', E', fs') -> List.length E' = List.length E.
+Proof. intros cf s Hs L d U E fs pos lc code L' U' E' fs' H. eapply ninv_length, nstmt_inv; eauto. Qed.
 
-Lemma nlist_len : forall cf b, forallb stmt5w b = true -> forall d L U E fs code L' U' E' fs',
-  nlist cf b d L U E fs = Some (code, L', U', E', fs') -> List.length E' = List.length E.
-Proof. intros cf b Hb d L U E fs code L' U' E' fs' H. eapply ninv_length, nlist_inv; eauto. Qed.
+Lemma nlist_len : forall cf b, forallb stmt6w b = true -> forall d L U E fs pos lc code L' U' E' fs',
+  nlist cf b d L U E fs pos lc = Some (code, L', U', E', fs') -> List.length E' = List.length E.
+Proof. intros cf b Hb d L U E fs pos lc code L' U' E' fs' H. eapply ninv_length, nlist_inv; eauto. Qed.
+
+Lemma nblk_len : forall cf b, forallb stmt6w b = true -> forall d L U E fs pos lc code L' U' E' fs',
+  nblk cf b d L U E fs pos lc = Some (code, L', U', E', fs') -> List.length E' = List.length E.
+Proof. intros cf b Hb d L U E fs pos lc code L' U' E' fs' H. eapply ninv_length, nblk_inv; eauto. Qed.
 
 (* with no enclosing level the upvalue list never changes *)
 Lemma rup_nil : forall cf x U, rup cf x U [] = Some (None, U, []).
 Proof. reflexivity. Qed.
 
-Lemma nstmt_nil : forall cf s, stmt5w s = true -> forall L d U fs code L' U' E' fs',
-  nstmt cf s L d U [] fs = Some (code, L', U', E', fs') -> U' = U /\ E' = [].
-Proof. intros cf s Hs L d U fs code L' U' E' fs' H. eapply ninv_nil, nstmt_inv; eauto. Qed.
+Lemma nstmt_nil : forall cf s, stmt6w s = true -> forall L d U fs pos lc code L' U' E' fs',
+  nstmt cf s L d U [] fs pos lc = Some (code, L', U', E', fs') -> U' = U /\ E' = [].
+Proof. intros cf s Hs L d U fs pos lc code L' U' E' fs' H. eapply ninv_nil, nstmt_inv; eauto. Qed.
 
-Lemma nlist_nil : forall cf b, forallb stmt5w b = true -> forall d L U fs code L' U' E' fs',
-  nlist cf b d L U [] fs = Some (code, L', U', E', fs') -> U' = U /\ E' = [].
-Proof. intros cf b Hb d L U fs code L' U' E' fs' H. eapply ninv_nil, nlist_inv; eauto. Qed.
+Lemma nlist_nil : forall cf b, forallb stmt6w b = true -> forall d L U fs pos lc code L' U' E' fs',
+  nlist cf b d L U [] fs pos lc = Some (code, L', U', E', fs') -> U' = U /\ E' = [].
+Proof. intros cf b Hb d L U fs pos lc code L' U' E' fs' H. eapply ninv_nil, nlist_inv; eauto. Qed.
 
 (* ------------------------------------------------------------------------------------------ *)
-(* Part 3: the error flag is sticky through the fragment, whatever the stack *)
+(* Part 3: the statements of stages 3 / 4 unfolded over the named comp_list; the error flag is sticky through the
+   fragment, whatever the stack *)
 
-Lemma errd_comp_stmt5w : forall cf s, stmt5w s = true -> forall st, errd st -> errd (comp_stmt cf s st).
+Definition blockS (cf : cfg) (b : list stmt) (st : cst) : cst := end_scope (comp_list cf b (begin_scope st)).
+
+Definition loop_tail (cf : cfg) (b : list stmt) (loop_start exit_ix : nat) (st7 : cst) : cst :=
+  let st8 := emit_loop loop_start (blockS cf b st7) in
+  let st9 := emit IPop (patch_jump exit_ix st8) in
+  end_scope (pop_loop st9).
+
+Definition loop_mid (cf : cfg) (n : nat) (b : list stmt) (st1 : cst) : cst :=
+  let loop_var := List.length (fc_locals (top_of st1)) - 1 in
+  let st2 := emits [INil; IConst 0; IConst (N.of_nat n); IBuildRange] st1 in
+  let st3 := mark_initialised st2 in
+  let st4 := mark_initialised (emit (IInvoke MIter 0) (add_local cf None st3)) in
+  let st5 := push_loop st4 in
+  let loop_start := here_bytes st4 in
+  let st6 := emits [IIterNext; ISetLocal loop_var] st5 in
+  let exit_ix := here_ix st6 in
+  let st7 := emits [IJumpIfStopIter 0; IPop] st6 in
+  loop_tail cf b loop_start exit_ix st7.
+
+Lemma comp_stmt_loop : forall cf i n b st,
+  comp_stmt cf (SLoop i n b) st = loop_mid cf n b (declare_variable cf i (begin_scope st)).
+Proof. intros. cbn [comp_stmt]. unfold loop_mid, loop_tail, blockS, comp_list. reflexivity. Qed.
+
+Definition if_tail (cf : cfg) (e : list stmt) (then_ix : nat) (st2 : cst) : cst :=
+  let else_ix := here_ix st2 in
+  let st3 := emit IPop (patch_jump then_ix (emit (IJump 0) st2)) in
+  patch_jump else_ix (blockS cf e st3).
+
+Lemma comp_stmt_if : forall cf a c t e st,
+  comp_stmt cf (SIf a c t e) st =
+  let st1 := emit ILess (comp_expr cf c (comp_expr cf a st)) in
+  if_tail cf e (here_ix st1) (blockS cf t (emits [IJumpIfFalse 0; IPop] st1)).
+Proof. intros. cbn [comp_stmt]. unfold if_tail, blockS, comp_list. reflexivity. Qed.
+
+Lemma errd_add_local : forall cf nm st, errd st -> errd (add_local cf nm st).
 Proof.
-  intros cf s Hs. pattern s. revert s Hs. apply stmt5w_ind.
+  intros cf nm st H. unfold add_local. destruct (_ =? c_locals_max cf); [apply errd_fail|now apply errd_on_top].
+Qed.
+
+Lemma errd_patch_jump : forall ix st, errd st -> errd (patch_jump ix st).
+Proof. intros ix st H. now apply errd_on_top. Qed.
+
+Lemma errd_emit_loop : forall s st, errd st -> errd (emit_loop s st).
+Proof. intros s st H. now apply errd_emit. Qed.
+
+Lemma errd_push_loop : forall st, errd st -> errd (push_loop st).
+Proof. intros st H. now apply errd_on_top. Qed.
+
+Lemma errd_push_break : forall ix st, errd st -> errd (push_break ix st).
+Proof. intros ix st H. now apply errd_on_top. Qed.
+
+Lemma errd_pop_loop : forall st, errd st -> errd (pop_loop st).
+Proof.
+  intros st H. unfold pop_loop. apply errd_on_top.
+  generalize (match fc_breaks (top_of st) with b :: _ => b | [] => [] end). intros pend. revert st H.
+  induction pend as [|ix r IH]; intros st H; [exact H|]. cbn [fold_left]. apply IH. now apply errd_patch_jump.
+Qed.
+
+Definition sticky (cf : cfg) (s : stmt) : Prop := forall st, errd st -> errd (comp_stmt cf s st).
+
+Lemma errd_blockS : forall cf b, Forall (sticky cf) b -> forall st, errd st -> errd (blockS cf b st).
+Proof.
+  intros cf b IH st H. unfold blockS. apply errd_end_scope. apply errd_comp_list_aux; [exact IH|]. now apply errd_on_top.
+Qed.
+
+Lemma errd_loop_tail : forall cf b, Forall (sticky cf) b -> forall s x st, errd st -> errd (loop_tail cf b s x st).
+Proof.
+  intros cf b IH s x st H. unfold loop_tail. cbv zeta.
+  apply errd_end_scope, errd_pop_loop, errd_emit, errd_patch_jump, errd_emit_loop. now apply errd_blockS.
+Qed.
+
+Lemma errd_loop_mid : forall cf n b, Forall (sticky cf) b -> forall st, errd st -> errd (loop_mid cf n b st).
+Proof.
+  intros cf n b IH st H. unfold loop_mid. cbv zeta. apply errd_loop_tail; [exact IH|].
+  apply errd_emits, errd_emits, errd_push_loop, errd_mark_initialised, errd_emit, errd_add_local, errd_mark_initialised.
+  now apply errd_emits.
+Qed.
+
+Lemma errd_if_tail : forall cf e, Forall (sticky cf) e -> forall x st, errd st -> errd (if_tail cf e x st).
+Proof.
+  intros cf e IH x st H. unfold if_tail. cbv zeta. apply errd_patch_jump, errd_blockS; [exact IH|].
+  now apply errd_emit, errd_patch_jump, errd_emit.
+Qed.
+
+Lemma errd_comp_stmt6w : forall cf s, stmt6w s = true -> forall st, errd st -> errd (comp_stmt cf s st).
+Proof.
+  intros cf s Hs. change (sticky cf s). pattern s. revert s Hs. apply stmt6w_ind; unfold sticky.
   - intros x e He st H. cbn [comp_stmt]. apply errd_define_variable. apply errd_comp_expr2; [exact He|].
     apply errd_declare_variable; exact H.
   - intros x e He st H. cbn [comp_stmt]. pose proof (errd_resolve_variable cf x st H) as H1.
@@ -565,19 +858,39 @@ Proof.
     { destruct (fc_script (top_of st)); [apply errd_fail|exact H]. }
     pose proof (errd_comp_expr2 cf e He _ H0) as H1.
     destruct (fc_intry _); [apply errd_fail|now apply errd_emit].
-  - intros b Hb IH st H. rewrite comp_stmt_block. apply errd_end_scope.
-    apply errd_comp_list_aux; [exact IH|]. now apply errd_on_top.
+  - intros b Hb IH st H. rewrite comp_stmt_block. now apply (errd_blockS cf b IH).
   - intros f ps b Hb IH st H. rewrite comp_stmt_fun. apply errd_define_variable, errd_finalise_function.
     apply errd_comp_list_aux; [exact IH|]. apply errd_open_function, errd_mark_initialised, errd_declare_variable, H.
   - intros x ps b Hb IH st H. rewrite comp_stmt_lam. apply errd_define_variable, errd_finalise_function.
     apply errd_comp_list_aux; [exact IH|]. apply errd_open_function, errd_declare_variable, H.
+  - intros i n b Hb IH st H. rewrite comp_stmt_loop. apply errd_loop_mid; [exact IH|].
+    apply errd_declare_variable. now apply errd_on_top.
+  - intros a c t e Ha Hc Ht He IHt IHe st H. rewrite comp_stmt_if. cbv zeta. apply errd_if_tail; [exact IHe|].
+    apply errd_blockS; [exact IHt|]. apply errd_emits, errd_emit. apply errd_comp_expr2; [exact Hc|].
+    now apply errd_comp_expr2.
+  - intros st H. cbn [comp_stmt]. destruct (fc_loops (top_of st)) as [|[s0 d0] r]; [apply errd_fail|].
+    destruct (c_break_pops_first cf).
+    + apply errd_push_break, errd_emit. now apply errd_emit_scope_end.
+    + apply errd_emit_scope_end, errd_push_break. now apply errd_emit.
+  - intros st H. cbn [comp_stmt]. destruct (fc_loops (top_of st)) as [|[s0 d0] r]; [apply errd_fail|].
+    apply errd_emit_loop. now apply errd_emit_scope_end.
 Qed.
 
-Lemma errd_comp_list5w : forall cf b, forallb stmt5w b = true -> forall st, errd st -> errd (comp_list cf b st).
+Lemma stmt6w_all_sticky : forall cf b, forallb stmt6w b = true -> Forall (sticky cf) b.
 Proof.
-  intros cf b. induction b as [|a r IH]; intros Hb st H; [exact H|].
-  cbn in Hb. apply andb_prop in Hb as [Ha Hr]. rewrite comp_list_cons. apply IH; auto. now apply errd_comp_stmt5w.
+  intros cf b Hb. induction b as [|a r IH]; constructor.
+  - cbn in Hb. apply andb_prop in Hb as [Ha _]. unfold sticky. now apply errd_comp_stmt6w.
+  - cbn in Hb. apply andb_prop in Hb as [_ Hr]. now apply IH.
 Qed.
+
+Lemma errd_comp_list6w : forall cf b, forallb stmt6w b = true -> forall st, errd st -> errd (comp_list cf b st).
+Proof. intros cf b Hb. apply errd_comp_list_aux. now apply stmt6w_all_sticky. Qed.
+
+Lemma errd_comp_stmt5w : forall cf s, stmt5w s = true -> forall st, errd st -> errd (comp_stmt cf s st).
+Proof. intros cf s Hs. apply errd_comp_stmt6w. now apply stmt5w_stmt6w. Qed.
+
+Lemma errd_comp_list5w : forall cf b, forallb stmt5w b = true -> forall st, errd st -> errd (comp_list cf b st).
+Proof. intros cf b Hb. apply errd_comp_list6w. revert Hb. apply forallb_imp. apply stmt5w_stmt6w. Qed.
 
 (* ------------------------------------------------------------------------------------------ *)
 (* Part 4: expressions *)
@@ -686,7 +999,7 @@ Lemma comp_args_N : forall cf args, forallb expr2 args = true -> forall c cs fs,
 Proof. intros cf args Hb. apply comp_args_N_aux; [now apply expr2_all_goalN|exact Hb]. Qed.
 
 (* ------------------------------------------------------------------------------------------ *)
-(* Part 5: statements.  A function definition pushes a compiler: the body is compiled on the stack new :: c :: cs *)
+(* Part 4b: opening a function (open_function pushes a fresh compiler, no loop open) and closing it *)
 
 Lemma param_step_stk : forall cf p a Lb cs fs,
   if dup_in_scope Lb p 1 then errd (param_step cf (stk (fbody a Lb) cs fs) p)
@@ -743,41 +1056,381 @@ Proof.
   intros cb c cs fs. unfold finalise_function. cbv zeta. rewrite emits_stk. reflexivity.
 Qed.
 
-Definition stmt_goalN (cf : cfg) (s : stmt) : Prop := forall c cs fs,
-  noret s || retok c = true ->
-  match nstmt cf s (fc_locals c) (fc_depth c) (fc_ups c) (map lev_of cs) fs with
-  | Some (code, L', U', E', fs') => comp_stmt cf s (stk c cs fs) =
-       stk (with_clu c (fc_code c ++ code) L' U') (put_levs cs E') fs'
-  | None => errd (comp_stmt cf s (stk c cs fs))
+(* ------------------------------------------------------------------------------------------ *)
+(* Part 5: pending breaks.  A mask over a piece of code marks the break jumps of the innermost loop that are still
+   to be patched: ixs = their instruction indices (what the stateful compiler keeps in fc_breaks), bpm X = the code
+   with those jumps landing at byte offset X (what pop_loop produces, and what the pure compiler emits at once). *)
+
+Fixpoint ixs (k : nat) (mask : list bool) : list nat :=
+  match mask with
+  | [] => []
+  | m :: r => if m then k :: ixs (S k) r else ixs (S k) r
   end.
 
-Lemma comp_list_N_aux : forall cf b, Forall (stmt_goalN cf) b -> forallb stmt5w b = true ->
-  forall c cs fs, forallb noret b || retok c = true ->
-  match nlist cf b (fc_depth c) (fc_locals c) (fc_ups c) (map lev_of cs) fs with
-  | Some (code, L', U', E', fs') => comp_list cf b (stk c cs fs) =
-       stk (with_clu c (fc_code c ++ code) L' U') (put_levs cs E') fs'
-  | None => errd (comp_list cf b (stk c cs fs))
+Fixpoint bpm (X pos : nat) (mask : list bool) (c : list instr) : list instr :=
+  match mask, c with
+  | m :: mr, i :: r => (if m then patch_instr i (X - (pos + isize i)) else i) :: bpm X (pos + isize i) mr r
+  | _, _ => c
   end.
+
+Lemma ixs_app : forall a b k, ixs k (a ++ b) = (ixs k a ++ ixs (k + List.length a) b)%list.
 Proof.
-  intros cf b H. induction H as [|a r Ha Hr IH]; intros Hb c cs fs Hn.
-  - cbn. rewrite app_nil_r, put_levs_id. destruct c; reflexivity.
-  - cbn in Hb. apply andb_prop in Hb as [Hb1 Hb2]. cbn [nlist]. rewrite comp_list_cons.
-    assert (Hn12 : noret a || retok c = true /\ forallb noret r || retok c = true).
-    { cbn [forallb] in Hn. destruct (noret a), (forallb noret r), (retok c); cbn in Hn |- *; try discriminate; split; reflexivity. }
-    destruct Hn12 as [Hn1 Hn2]. specialize (Ha c cs fs Hn1).
-    destruct (nstmt cf a (fc_locals c) (fc_depth c) (fc_ups c) (map lev_of cs) fs) as [[[[[ca L1] U1] E1] fs1]|] eqn:Ea.
-    + rewrite Ha. pose proof (nstmt_len cf a Hb1 _ _ _ _ _ _ _ _ _ _ Ea) as Hl1. rewrite map_length in Hl1.
-      specialize (IH Hb2 (with_clu c (fc_code c ++ ca) L1 U1) (put_levs cs E1) fs1 Hn2).
-      cbn [fc_locals fc_depth fc_ups fc_code with_clu] in IH. rewrite (map_lev_of_put_levs cs E1 Hl1) in IH.
-      destruct (nlist cf r (fc_depth c) L1 U1 E1 fs1) as [[[[[cr L2] U2] E2] fs2]|] eqn:Er.
-      * rewrite IH. pose proof (nlist_len cf r Hb2 _ _ _ _ _ _ _ _ _ _ Er) as Hl2.
-        rewrite put_levs_put_levs by lia. cbn. now rewrite <- app_assoc.
+  induction a as [|m r IH]; intros b k; cbn [ixs app List.length].
+  - now rewrite Nat.add_0_r.
+  - rewrite IH. replace (S k + List.length r) with (k + S (List.length r)) by lia. destruct m; reflexivity.
+Qed.
+
+Lemma ixs_nomask : forall n k, ixs k (repeat false n) = [].
+Proof. induction n as [|n IH]; intros k; cbn [repeat ixs]; [reflexivity|apply IH]. Qed.
+
+Lemma isize_patch : forall i v, isize (patch_instr i v) = isize i.
+Proof. intros i v. destruct i; reflexivity. Qed.
+
+Lemma bpm_nil : forall X pos c, bpm X pos [] c = c.
+Proof. reflexivity. Qed.
+
+Lemma bpm_size : forall X mask c pos, code_size (bpm X pos mask c) = code_size c.
+Proof.
+  intros X mask. induction mask as [|m mr IH]; intros c pos; [reflexivity|]. destruct c as [|i r]; [reflexivity|].
+  cbn [bpm code_size]. rewrite IH. destruct m; [now rewrite isize_patch|reflexivity].
+Qed.
+
+Lemma bpm_length : forall X mask c pos, List.length (bpm X pos mask c) = List.length c.
+Proof.
+  intros X mask. induction mask as [|m mr IH]; intros c pos; [reflexivity|]. destruct c as [|i r]; [reflexivity|].
+  cbn [bpm List.length]. now rewrite IH.
+Qed.
+
+Lemma bpm_app : forall X ma a mb b pos, List.length ma = List.length a ->
+  bpm X pos (ma ++ mb) (a ++ b) = (bpm X pos ma a ++ bpm X (pos + code_size a) mb b)%list.
+Proof.
+  intros X ma. induction ma as [|m mr IH]; intros a mb b pos H; destruct a as [|i r]; try discriminate.
+  - cbn [app code_size bpm]. now rewrite Nat.add_0_r.
+  - cbn [app bpm code_size]. rewrite IH by (cbn in H; lia). now rewrite Nat.add_assoc.
+Qed.
+
+Lemma bpm_nomask : forall X n c pos, bpm X pos (repeat false n) c = c.
+Proof.
+  intros X n. induction n as [|n IH]; intros c pos; [reflexivity|]. destruct c as [|i r]; [reflexivity|].
+  cbn [repeat bpm]. now rewrite IH.
+Qed.
+
+(* patch_jump on a known position *)
+Lemma set_nth_mid : forall (A : Type) (pre : list A) j post v, set_nth (pre ++ j :: post) (List.length pre) v = (pre ++ v :: post)%list.
+Proof. intros A pre. induction pre as [|a r IH]; intros j post v; [reflexivity|]. cbn [app List.length set_nth]. now rewrite IH. Qed.
+
+Lemma skipn_S_mid : forall (A : Type) (pre : list A) j post, skipn (S (List.length pre)) (pre ++ j :: post) = post.
+Proof. intros A pre. induction pre as [|a r IH]; intros j post; [reflexivity|]. cbn [app List.length]. rewrite skipn_cons. apply IH. Qed.
+
+Lemma patch_jump_at : forall pre j post L U d lo br it ar sc cs fs,
+  patch_jump (List.length pre) (stk (mkFC (pre ++ j :: post) L U d lo br it ar sc) cs fs) =
+  stk (mkFC (pre ++ patch_instr j (code_size post) :: post) L U d lo br it ar sc) cs fs.
+Proof.
+  intros. unfold patch_jump, on_top, stk. cbn [cs_comps cs_funs cs_err fc_code set_code fc_locals fc_ups fc_depth fc_loops fc_breaks fc_intry fc_arity fc_script].
+  rewrite set_nth_mid, nth_middle. unfold bytes_after. rewrite skipn_S_mid. reflexivity.
+Qed.
+
+Lemma patch_jump_at' : forall ix code pre j post L U d lo br it ar sc cs fs,
+  code = (pre ++ j :: post)%list -> ix = List.length pre ->
+  patch_jump ix (stk (mkFC code L U d lo br it ar sc) cs fs) =
+  stk (mkFC (pre ++ patch_instr j (code_size post) :: post) L U d lo br it ar sc) cs fs.
+Proof. intros; subst. apply patch_jump_at. Qed.
+
+(* pop_loop: all the pending jumps of a piece `mid` of the code *)
+Lemma patch_fold : forall mask mid pre post L U d lo br it ar sc cs fs,
+  List.length mask = List.length mid ->
+  fold_left (fun s ix => patch_jump ix s) (ixs (List.length pre) mask) (stk (mkFC (pre ++ mid ++ post) L U d lo br it ar sc) cs fs) =
+  stk (mkFC (pre ++ bpm (code_size (pre ++ mid ++ post)) (code_size pre) mask mid ++ post) L U d lo br it ar sc) cs fs.
+Proof.
+  induction mask as [|m ms IH]; intros mid pre post L U d lo br it ar sc cs fs H; destruct mid as [|i r]; try discriminate.
+  - reflexivity.
+  - assert (Hr : List.length ms = List.length r) by (cbn in H; lia).
+    cbn [ixs bpm]. destruct m.
+    + cbn [fold_left app]. rewrite patch_jump_at.
+      set (i' := patch_instr i (code_size (r ++ post))).
+      replace (S (List.length pre)) with (List.length (pre ++ [i'])) by (rewrite app_length; cbn; lia).
+      replace (pre ++ i' :: r ++ post)%list with ((pre ++ [i']) ++ r ++ post)%list by (now rewrite <- app_assoc).
+      rewrite IH by exact Hr.
+      assert (Hs : code_size ((pre ++ [i']) ++ r ++ post) = code_size (pre ++ i :: r ++ post)).
+      { rewrite !code_size_app. cbn [code_size]. rewrite !code_size_app. unfold i'. rewrite isize_patch. lia. }
+      assert (Hp : code_size (pre ++ [i']) = code_size pre + isize i).
+      { rewrite code_size_app. cbn [code_size]. unfold i'. rewrite isize_patch. lia. }
+      rewrite Hs, Hp. rewrite <- app_assoc. cbn [app].
+      replace (code_size (pre ++ i :: r ++ post) - (code_size pre + isize i)) with (code_size (r ++ post)).
+      * reflexivity.
+      * rewrite !code_size_app. cbn [code_size]. rewrite ?code_size_app. lia.
+    + replace (S (List.length pre)) with (List.length (pre ++ [i])) by (rewrite app_length; cbn; lia).
+      cbn [app]. replace (pre ++ i :: r ++ post)%list with ((pre ++ [i]) ++ r ++ post)%list by (now rewrite <- app_assoc).
+      rewrite IH by exact Hr.
+      assert (Hp : code_size (pre ++ [i]) = code_size pre + isize i).
+      { rewrite code_size_app. cbn [code_size]. lia. }
+      rewrite Hp. rewrite <- app_assoc. reflexivity.
+Qed.
+
+(* c with new code, locals, upvalue list, and more pending breaks *)
+Definition add_brks (bs : list nat) (B : list (list nat)) : list (list nat) :=
+  match B with b :: r => (b ++ bs)%list :: r | [] => [] end.
+
+Definition with_club (c : fcomp) (code : list instr) (L : list local) (U : ups_t) (bs : list nat) : fcomp :=
+  mkFC code L U (fc_depth c) (fc_loops c) (add_brks bs (fc_breaks c)) (fc_intry c) (fc_arity c) (fc_script c).
+
+Lemma add_brks_nil : forall B, add_brks [] B = B.
+Proof. intros [|b r]; [reflexivity|]. cbn. now rewrite app_nil_r. Qed.
+
+Lemma add_brks_add : forall a b B, add_brks b (add_brks a B) = add_brks (a ++ b) B.
+Proof. intros a b [|x r]; [reflexivity|]. cbn. now rewrite app_assoc. Qed.
+
+Lemma with_club_nil : forall c code L U, with_club c code L U [] = with_clu c code L U.
+Proof. intros. unfold with_club, with_clu. now rewrite add_brks_nil. Qed.
+
+(* the innermost loop of the compiler c, as the pure compiler sees it, were its breaks to land at X *)
+Definition lc_of (c : fcomp) (X : nat) : option lctx :=
+  match fc_loops c with [] => None | (s, d) :: _ => Some (mkLctx s d X) end.
+
+(* the correspondence.  `pure` = the pure compiler applied to everything but the loop context *)
+Definition res_ok (c : fcomp) (cs : list fcomp) (pure : option lctx -> option nres) (st : cst) : Prop :=
+  match pure (lc_of c 0) with
+  | Some (code0, L', U', E', fs') => exists mask,
+      List.length mask = List.length code0 /\
+      st = stk (with_club c (fc_code c ++ code0) L' U' (ixs (List.length (fc_code c)) mask)) (put_levs cs E') fs' /\
+      forall X, pure (lc_of c X) = Some (bpm X (code_size (fc_code c)) mask code0, L', U', E', fs')
+  | None => errd st
+  end.
+
+(* statements whose code does not depend on where a break lands *)
+Lemma res_ok_simple : forall c cs (pure : option lctx -> option nres) st,
+  (forall X, pure (lc_of c X) = pure (lc_of c 0)) ->
+  match pure (lc_of c 0) with
+  | Some (code, L', U', E', fs') => st = stk (with_clu c (fc_code c ++ code) L' U') (put_levs cs E') fs'
+  | None => errd st
+  end -> res_ok c cs pure st.
+Proof.
+  intros c cs pure st Hx H. unfold res_ok. destruct (pure (lc_of c 0)) as [[[[[code L'] U'] E'] fs']|] eqn:Ep; [|exact H].
+  exists (repeat false (List.length code)). split; [apply repeat_length|]. split.
+  - rewrite ixs_nomask, with_club_nil. exact H.
+  - intros X. rewrite Hx, bpm_nomask. reflexivity.
+Qed.
+
+(* ------------------------------------------------------------------------------------------ *)
+(* Part 6: the stateful primitives on an explicit compiler record *)
+
+Ltac norm_app := repeat (progress (rewrite <- ?app_assoc; cbn [app])).
+
+Lemma on_top_stk : forall f c cs fs, on_top f (stk c cs fs) = stk (f c) cs fs.
+Proof. reflexivity. Qed.
+
+Lemma emits_mk : forall l code L U d lo br it ar sc cs fs,
+  emits l (stk (mkFC code L U d lo br it ar sc) cs fs) = stk (mkFC (code ++ l) L U d lo br it ar sc) cs fs.
+Proof. intros. rewrite emits_stk. reflexivity. Qed.
+
+Lemma emit_mk : forall i code L U d lo br it ar sc cs fs,
+  emit i (stk (mkFC code L U d lo br it ar sc) cs fs) = stk (mkFC (code ++ [i]) L U d lo br it ar sc) cs fs.
+Proof. reflexivity. Qed.
+
+Lemma end_scope_mk : forall code L U d lo br it ar sc cs fs,
+  end_scope (stk (mkFC code L U (S d) lo br it ar sc) cs fs) =
+  stk (mkFC (code ++ scope_end_ops L d) (skipn (List.length (scope_end_ops L d)) L) U d lo br it ar sc) cs fs.
+Proof.
+  intros. unfold end_scope. rewrite on_top_stk. cbn [set_depth fc_depth fc_code fc_locals fc_ups fc_loops fc_breaks fc_intry fc_arity fc_script].
+  rewrite top_of_stk. cbn [fc_depth]. replace (S d - 1) with d by lia.
+  unfold emit_scope_end. cbv zeta. rewrite top_of_stk. unfold set_depth.
+  cbn [fc_depth fc_code fc_locals fc_ups fc_loops fc_breaks fc_intry fc_arity fc_script]. rewrite emits_mk, on_top_stk. reflexivity.
+Qed.
+
+(* the end of a loop: the body block has been compiled, its pending breaks are `mask` *)
+Lemma loop_tail_stk : forall cf b code pre lv Lh U d lo br it ar sc cs fs c0 mask L1 U' cs' fs',
+  blockS cf b (stk (mkFC (code ++ pre ++ loop_head lv 0) Lh U (S d) ((code_size (code ++ pre), S d) :: lo) ([] :: br) it ar sc) cs fs) =
+    stk (mkFC ((code ++ pre ++ loop_head lv 0) ++ c0) L1 U' (S d) ((code_size (code ++ pre), S d) :: lo)
+              (([] ++ ixs (List.length (code ++ pre ++ loop_head lv 0)) mask)%list :: br) it ar sc) cs' fs' ->
+  List.length mask = List.length c0 ->
+  loop_tail cf b (code_size (code ++ pre)) (List.length (code ++ pre ++ [IIterNext; ISetLocal lv]))
+    (stk (mkFC (code ++ pre ++ loop_head lv 0) Lh U (S d) ((code_size (code ++ pre), S d) :: lo) ([] :: br) it ar sc) cs fs) =
+  stk (mkFC (code ++ pre ++ loop_head lv (1 + code_size c0 + 3)
+               ++ bpm (code_size code + code_size pre + code_size (loop_head lv 0) + code_size c0 + 3 + 1)
+                      (code_size code + code_size pre + code_size (loop_head lv 0)) mask c0
+               ++ [ILoop (code_size (loop_head lv 0) + code_size c0 + 3); IPop] ++ scope_end_ops L1 d)
+            (skipn (List.length (scope_end_ops L1 d)) L1) U' d lo br it ar sc) cs' fs'.
+Proof.
+  intros cf b code pre lv Lh U d lo br it ar sc cs fs c0 mask L1 U' cs' fs' Hb Hm.
+  unfold loop_tail. cbv zeta. rewrite Hb. unfold emit_loop, here_bytes. rewrite top_of_stk. cbn [fc_code]. rewrite emit_mk.
+  rewrite (patch_jump_at' _ _ (code ++ pre ++ [IIterNext; ISetLocal lv]) (IJumpIfStopIter 0)
+             (IPop :: c0 ++ [ILoop (code_size ((code ++ pre ++ loop_head lv 0) ++ c0) + 3 - code_size (code ++ pre))]));
+    [| unfold loop_head; rewrite <- !app_assoc; reflexivity | reflexivity].
+  rewrite emit_mk. unfold pop_loop. rewrite top_of_stk. cbn [fc_breaks app patch_instr].
+  set (lp := ILoop (code_size ((code ++ pre ++ loop_head lv 0) ++ c0) + 3 - code_size (code ++ pre))).
+  set (hd := loop_head lv (code_size (IPop :: c0 ++ [lp]))).
+  replace (((code ++ pre ++ [IIterNext; ISetLocal lv]) ++ IJumpIfStopIter (code_size (IPop :: c0 ++ [lp])) :: IPop :: c0 ++ [lp]) ++ [IPop])%list
+    with ((code ++ pre ++ hd) ++ c0 ++ [lp; IPop])%list by (unfold hd, loop_head; norm_app; reflexivity).
+  replace (List.length (code ++ pre ++ loop_head lv 0)) with (List.length (code ++ pre ++ hd))
+    by (unfold hd, loop_head; rewrite !app_length; reflexivity).
+  rewrite patch_fold by exact Hm. rewrite on_top_stk.
+  unfold set_loops. cbn [tl fc_code fc_locals fc_ups fc_depth fc_loops fc_breaks fc_intry fc_arity fc_script].
+  rewrite end_scope_mk. f_equal. f_equal.
+  assert (Hlp : lp = ILoop (code_size (loop_head lv 0) + code_size c0 + 3)).
+  { unfold lp. f_equal. rewrite !code_size_app. lia. }
+  assert (Hhd : hd = loop_head lv (1 + code_size c0 + 3)).
+  { unfold hd. f_equal. cbn [code_size isize]. rewrite code_size_app. rewrite Hlp. cbn [code_size isize]. lia. }
+  assert (Hs1 : code_size ((code ++ pre ++ hd) ++ c0 ++ [lp; IPop]) =
+                code_size code + code_size pre + code_size (loop_head lv 0) + code_size c0 + 3 + 1).
+  { rewrite Hlp, Hhd. rewrite !code_size_app. cbn [code_size isize loop_head]. lia. }
+  assert (Hs2 : code_size (code ++ pre ++ hd) = code_size code + code_size pre + code_size (loop_head lv 0)).
+  { rewrite Hhd. rewrite !code_size_app. cbn [code_size isize loop_head]. lia. }
+  rewrite Hs1, Hs2, Hhd, Hlp. rewrite <- !app_assoc. reflexivity.
+Qed.
+
+(* the middle of an if: the then-block has been compiled, up to the start of the else-block *)
+Lemma if_mid_stk : forall code pre ct L1 U3 d lo br it ar sc cs2 fs1,
+  emit IPop (patch_jump (List.length (code ++ pre))
+    (emit (IJump 0) (stk (mkFC ((code ++ pre ++ [IJumpIfFalse 0; IPop]) ++ ct) L1 U3 d lo br it ar sc) cs2 fs1))) =
+  stk (mkFC (code ++ pre ++ [IJumpIfFalse (1 + code_size ct + 3); IPop] ++ ct ++ [IJump 0; IPop]) L1 U3 d lo br it ar sc) cs2 fs1.
+Proof.
+  intros. rewrite emit_mk.
+  rewrite (patch_jump_at' _ _ (code ++ pre) (IJumpIfFalse 0) (IPop :: ct ++ [IJump 0]));
+    [| norm_app; reflexivity | reflexivity].
+  rewrite emit_mk. cbn [patch_instr]. f_equal. f_equal.
+  norm_app. do 4 f_equal. cbn [code_size isize]. rewrite code_size_app. cbn [code_size isize]. lia.
+Qed.
+
+(* the end of an if *)
+Lemma if_tail_stk : forall cf e code pre ct L1 U3 d lo br it ar sc cs2 fs1 cel L2 U4 br' cs3 fs2,
+  blockS cf e (stk (mkFC (code ++ pre ++ [IJumpIfFalse (1 + code_size ct + 3); IPop] ++ ct ++ [IJump 0; IPop]) L1 U3 d lo br it ar sc) cs2 fs1) =
+    stk (mkFC ((code ++ pre ++ [IJumpIfFalse (1 + code_size ct + 3); IPop] ++ ct ++ [IJump 0; IPop]) ++ cel) L2 U4 d lo br' it ar sc) cs3 fs2 ->
+  if_tail cf e (List.length (code ++ pre)) (stk (mkFC ((code ++ pre ++ [IJumpIfFalse 0; IPop]) ++ ct) L1 U3 d lo br it ar sc) cs2 fs1) =
+  stk (mkFC (code ++ pre ++ [IJumpIfFalse (1 + code_size ct + 3); IPop] ++ ct ++ [IJump (1 + code_size cel); IPop] ++ cel)
+            L2 U4 d lo br' it ar sc) cs3 fs2.
+Proof.
+  intros cf e code pre ct L1 U3 d lo br it ar sc cs2 fs1 cel L2 U4 br' cs3 fs2 Hb.
+  unfold if_tail. cbv zeta. unfold here_ix. rewrite top_of_stk. cbn [fc_code]. rewrite if_mid_stk, Hb.
+  rewrite (patch_jump_at' _ _ (code ++ pre ++ [IJumpIfFalse (1 + code_size ct + 3); IPop] ++ ct) (IJump 0) (IPop :: cel));
+    [| norm_app; reflexivity | rewrite !app_length; cbn [List.length]; lia].
+  cbn [patch_instr code_size isize]. f_equal. f_equal. norm_app. reflexivity.
+Qed.
+
+(* the beginning of a loop, after the loop variable has been declared *)
+Lemma loop_st4 : forall cf n code i L U d lo br it ar sc cs fs,
+  (S (List.length L) =? c_locals_max cf) = false ->
+  mark_initialised (emit (IInvoke MIter 0) (add_local cf None (mark_initialised
+    (emits [INil; IConst 0; IConst (N.of_nat n); IBuildRange]
+       (stk (mkFC code (mkLocal (Some i) None false :: L) U (S d) lo br it ar sc) cs fs))))) =
+  stk (mkFC (code ++ loop_pre n) (loop_locals i d L) U (S d) lo br it ar sc) cs fs.
+Proof.
+  intros cf n code i L U d lo br it ar sc cs fs Hmax. rewrite emits_mk.
+  unfold mark_initialised at 2. rewrite on_top_stk. cbn [fc_depth Nat.eqb fc_locals l_name l_capt].
+  unfold set_locals. cbn [fc_code fc_locals fc_ups fc_depth fc_loops fc_breaks fc_intry fc_arity fc_script].
+  unfold add_local. rewrite top_of_stk. cbn [fc_locals List.length]. rewrite Hmax. rewrite on_top_stk.
+  unfold set_locals. cbn [fc_code fc_locals fc_ups fc_depth fc_loops fc_breaks fc_intry fc_arity fc_script].
+  rewrite emit_mk. unfold mark_initialised. rewrite on_top_stk. cbn [fc_depth Nat.eqb fc_locals l_name l_capt].
+  unfold set_locals. cbn [fc_code fc_locals fc_ups fc_depth fc_loops fc_breaks fc_intry fc_arity fc_script].
+  unfold loop_pre, loop_locals. norm_app. reflexivity.
+Qed.
+
+Lemma loop_mid_stk : forall cf n b code i L U d lo br it ar sc cs fs,
+  (S (List.length L) =? c_locals_max cf) = false ->
+  loop_mid cf n b (stk (mkFC code (mkLocal (Some i) None false :: L) U (S d) lo br it ar sc) cs fs) =
+  loop_tail cf b (code_size (code ++ loop_pre n)) (List.length (code ++ loop_pre n ++ [IIterNext; ISetLocal (List.length L)]))
+    (stk (mkFC (code ++ loop_pre n ++ loop_head (List.length L) 0) (loop_locals i d L) U (S d)
+               ((code_size (code ++ loop_pre n), S d) :: lo) ([] :: br) it ar sc) cs fs).
+Proof.
+  intros cf n b code i L U d lo br it ar sc cs fs Hmax. unfold loop_mid. cbv zeta.
+  rewrite (loop_st4 cf n code i L U d lo br it ar sc cs fs Hmax).
+  rewrite top_of_stk. cbn [fc_locals List.length]. replace (S (List.length L) - 1) with (List.length L) by lia.
+  unfold push_loop. rewrite on_top_stk. unfold set_loops.
+  cbn [fc_code fc_locals fc_ups fc_depth fc_loops fc_breaks fc_intry fc_arity fc_script].
+  rewrite !emits_mk. unfold here_bytes, here_ix. rewrite !top_of_stk. cbn [fc_code].
+  unfold loop_head. norm_app. reflexivity.
+Qed.
+
+Lemma loop_mid_max : forall cf n b code i L U d lo br it ar sc cs fs, forallb stmt6w b = true ->
+  (S (List.length L) =? c_locals_max cf) = true ->
+  errd (loop_mid cf n b (stk (mkFC code (mkLocal (Some i) None false :: L) U (S d) lo br it ar sc) cs fs)).
+Proof.
+  intros cf n b code i L U d lo br it ar sc cs fs Hb Hmax. unfold loop_mid. cbv zeta.
+  apply errd_loop_tail; [now apply stmt6w_all_sticky|].
+  apply errd_emits, errd_emits, errd_push_loop, errd_mark_initialised, errd_emit.
+  rewrite emits_mk. unfold mark_initialised. rewrite on_top_stk. cbn [fc_depth Nat.eqb fc_locals l_name l_capt].
+  unfold set_locals. cbn [fc_code fc_locals fc_ups fc_depth fc_loops fc_breaks fc_intry fc_arity fc_script].
+  unfold add_local. rewrite top_of_stk. cbn [fc_locals List.length]. rewrite Hmax. apply errd_fail.
+Qed.
+
+(* ------------------------------------------------------------------------------------------ *)
+(* Part 7: statements.  A function definition pushes a compiler: the body is compiled on the stack new :: c :: cs
+   (no loop is open there: lc_of = None, position 0); a loop pushes a loop context on the same compiler. *)
+
+Lemma res_ok_ext : forall c cs pure pure' st, (forall lc, pure lc = pure' lc) -> res_ok c cs pure' st -> res_ok c cs pure st.
+Proof.
+  intros c cs pure pure' st H. unfold res_ok. rewrite H.
+  destruct (pure' (lc_of c 0)) as [[[[[code L'] U'] E'] fs']|]; [|auto].
+  intros (m & A & B & C). exists m. split; [exact A|]. split; [exact B|]. intros X. rewrite H. apply C.
+Qed.
+
+Lemma orb_forallb_cons : forall (f : stmt -> bool) a r x,
+  forallb f (a :: r) || x = true -> f a || x = true /\ forallb f r || x = true.
+Proof. intros f a r x. cbn [forallb]. destruct (f a), (forallb f r), x; cbn; auto. Qed.
+
+Lemma orb_forallb_cons' : forall (f : stmt -> bool) a r x,
+  x || forallb f (a :: r) = true -> x || f a = true /\ x || forallb f r = true.
+Proof. intros f a r x. cbn [forallb]. destruct (f a), (forallb f r), x; cbn; auto. Qed.
+
+Definition stmt_goalN (cf : cfg) (s : stmt) : Prop := forall c cs fs,
+  noret s || retok c = true -> c_break_pops_first cf || nobrk s = true ->
+  res_ok c cs (nstmt cf s (fc_locals c) (fc_depth c) (fc_ups c) (map lev_of cs) fs (code_size (fc_code c)))
+         (comp_stmt cf s (stk c cs fs)).
+
+Lemma comp_list_N_aux : forall cf b, Forall (stmt_goalN cf) b -> forallb stmt6w b = true ->
+  forall c cs fs, forallb noret b || retok c = true -> c_break_pops_first cf || forallb nobrk b = true ->
+  res_ok c cs (nlist cf b (fc_depth c) (fc_locals c) (fc_ups c) (map lev_of cs) fs (code_size (fc_code c)))
+         (comp_list cf b (stk c cs fs)).
+Proof.
+  intros cf b H. induction H as [|a r Ha Hr IH]; intros Hb c cs fs Hn Hk.
+  - apply res_ok_simple; [reflexivity|]. cbn. rewrite app_nil_r, put_levs_id. destruct c; reflexivity.
+  - cbn in Hb. apply andb_prop in Hb as [Hb1 Hb2].
+    apply orb_forallb_cons in Hn as [Hn1 Hn2]. apply orb_forallb_cons' in Hk as [Hk1 Hk2].
+    specialize (Ha c cs fs Hn1 Hk1). unfold res_ok in Ha |- *. cbn [nlist]. rewrite comp_list_cons.
+    destruct (nstmt cf a (fc_locals c) (fc_depth c) (fc_ups c) (map lev_of cs) fs (code_size (fc_code c)) (lc_of c 0))
+      as [[[[[ca L1] U1] E1] fs1]|] eqn:Ea.
+    + destruct Ha as (ma & Hma & Hst & HXa). rewrite Hst.
+      pose proof (nstmt_len cf a Hb1 _ _ _ _ _ _ _ _ _ _ _ _ Ea) as Hl1. rewrite map_length in Hl1.
+      specialize (IH Hb2 (with_club c (fc_code c ++ ca) L1 U1 (ixs (List.length (fc_code c)) ma)) (put_levs cs E1) fs1 Hn2 Hk2).
+      unfold res_ok in IH.
+      change (lc_of (with_club c (fc_code c ++ ca) L1 U1 (ixs (List.length (fc_code c)) ma))) with (lc_of c) in IH.
+      cbn [with_club fc_locals fc_depth fc_ups fc_code] in IH.
+      rewrite (map_lev_of_put_levs cs E1 Hl1), code_size_app in IH.
+      destruct (nlist cf r (fc_depth c) L1 U1 E1 fs1 (code_size (fc_code c) + code_size ca) (lc_of c 0))
+        as [[[[[cr L2] U2] E2] fs2]|] eqn:Er.
+      * destruct IH as (mr & Hmr & Hstr & HXr). exists (ma ++ mr)%list. split; [rewrite !app_length; lia|]. split.
+        -- rewrite Hstr. pose proof (nlist_len cf r Hb2 _ _ _ _ _ _ _ _ _ _ _ _ Er) as Hl2.
+           rewrite put_levs_put_levs by lia. unfold with_club.
+           cbn [fc_code fc_locals fc_ups fc_depth fc_loops fc_breaks fc_intry fc_arity fc_script].
+           rewrite add_brks_add, ixs_app, app_length, Hma, app_assoc. reflexivity.
+        -- intros X. rewrite HXa. cbv beta iota. rewrite bpm_size, HXr. rewrite bpm_app by exact Hma. reflexivity.
       * exact IH.
-    + apply (errd_comp_list5w cf r Hb2). exact Ha.
+    + apply (errd_comp_list6w cf r Hb2). exact Ha.
+Qed.
+
+Lemma comp_blk_N_aux : forall cf b, Forall (stmt_goalN cf) b -> forallb stmt6w b = true ->
+  forall c cs fs, forallb noret b || retok c = true -> c_break_pops_first cf || forallb nobrk b = true ->
+  res_ok c cs (nblk cf b (fc_depth c) (fc_locals c) (fc_ups c) (map lev_of cs) fs (code_size (fc_code c)))
+         (blockS cf b (stk c cs fs)).
+Proof.
+  intros cf b IH Hb c cs fs Hn Hk. destruct c as [code L U d lo br it ar sc].
+  pose proof (comp_list_N_aux cf b IH Hb (mkFC code L U (S d) lo br it ar sc) cs fs Hn Hk) as Hl.
+  unfold res_ok in Hl |- *. unfold nblk.
+  change (lc_of (mkFC code L U (S d) lo br it ar sc)) with (lc_of (mkFC code L U d lo br it ar sc)) in Hl.
+  cbn [fc_code fc_locals fc_ups fc_depth] in Hl |- *.
+  destruct (nlist cf b (S d) L U (map lev_of cs) fs (code_size code) (lc_of (mkFC code L U d lo br it ar sc) 0))
+    as [[[[[cb L'] U'] E'] fs']|] eqn:El.
+  - destruct Hl as (m & Hm & Hst & HX). cbv zeta.
+    exists (m ++ repeat false (List.length (scope_end_ops L' d)))%list. split; [rewrite !app_length, repeat_length; lia|]. split.
+    + unfold blockS. change (begin_scope (stk (mkFC code L U d lo br it ar sc) cs fs)) with (stk (mkFC code L U (S d) lo br it ar sc) cs fs).
+      rewrite Hst. unfold with_club. cbn [fc_code fc_locals fc_ups fc_depth fc_loops fc_breaks fc_intry fc_arity fc_script].
+      rewrite end_scope_mk. rewrite ixs_app, ixs_nomask, app_nil_r, app_assoc. reflexivity.
+    + intros X. rewrite HX. rewrite bpm_app by exact Hm. rewrite bpm_nomask. reflexivity.
+  - unfold blockS. now apply errd_end_scope.
 Qed.
 
 (* function() / lambda(): open_function, the body, finalise_function *)
-Lemma comp_func_N_aux : forall cf ps b, Forall (stmt_goalN cf) b -> forallb stmt5w b = true -> forall c cs fs,
+Lemma comp_func_N_aux : forall cf ps b, Forall (stmt_goalN cf) b -> forallb stmt6w b = true ->
+  c_break_pops_first cf || forallb nobrk b = true -> forall c cs fs,
   match nfunc cf ps b (fc_locals c) (fc_ups c) (map lev_of cs) fs with
   | Some (ci, L', U', E', fs') =>
       finalise_function (comp_list cf b (open_function cf ps (stk c cs fs))) =
@@ -785,32 +1438,31 @@ Lemma comp_func_N_aux : forall cf ps b, Forall (stmt_goalN cf) b -> forallb stmt
   | None => errd (finalise_function (comp_list cf b (open_function cf ps (stk c cs fs))))
   end.
 Proof.
-  intros cf ps b IH Hb c cs fs. unfold nfunc.
+  intros cf ps b IH Hb Hk c cs fs. unfold nfunc.
   pose proof (open_function_stk cf ps c cs fs) as Ho.
   destruct (bparams cf ps [mkLocal None (Some 0) false]) as [Lb0|].
   - rewrite Ho.
-    pose proof (comp_list_N_aux cf b IH Hb (fbody (List.length ps) Lb0) (c :: cs) fs (orb_true_r _)) as Hl.
-    cbn [fc_depth fc_locals fc_ups fc_code fbody map] in Hl.
+    pose proof (comp_list_N_aux cf b IH Hb (fbody (List.length ps) Lb0) (c :: cs) fs (orb_true_r _) Hk) as Hl.
+    unfold res_ok in Hl. cbn [fc_depth fc_locals fc_ups fc_code fbody map code_size] in Hl.
+    change (lc_of (fbody (List.length ps) Lb0) 0) with (@None lctx) in Hl.
     change (lev_of c) with (mkLev (fc_locals c) (fc_ups c)) in Hl.
-    destruct (nlist cf b 1 Lb0 [] (mkLev (fc_locals c) (fc_ups c) :: map lev_of cs) fs) as [[[[[cb Lb'] Ub] Eb] fs1]|] eqn:El.
-    + pose proof (nlist_len cf b Hb _ _ _ _ _ _ _ _ _ _ El) as Hlen. cbn [List.length] in Hlen.
-      destruct Eb as [|lv E1]; [discriminate|]. cbn [nclose]. rewrite Hl. cbn [put_levs].
+    destruct (nlist cf b 1 Lb0 [] (mkLev (fc_locals c) (fc_ups c) :: map lev_of cs) fs 0 None) as [[[[[cb Lb'] Ub] Eb] fs1]|] eqn:El.
+    + pose proof (nlist_len cf b Hb _ _ _ _ _ _ _ _ _ _ _ _ El) as Hlen. cbn [List.length] in Hlen.
+      destruct Eb as [|lv E1]; [discriminate|]. cbn [nclose]. destruct Hl as (m & Hm & Hst & _). rewrite Hst. cbn [put_levs].
       rewrite finalise_function_stk. reflexivity.
     + cbn [nclose]. now apply errd_finalise_function.
-  - apply errd_finalise_function. apply errd_comp_list5w; [exact Hb|exact Ho].
+  - apply errd_finalise_function. apply errd_comp_list6w; [exact Hb|exact Ho].
 Qed.
 
-Lemma comp_stmt_N : forall cf s, stmt5w s = true -> forall c cs fs,
-  noret s || retok c = true ->
-  match nstmt cf s (fc_locals c) (fc_depth c) (fc_ups c) (map lev_of cs) fs with
-  | Some (code, L', U', E', fs') => comp_stmt cf s (stk c cs fs) =
-       stk (with_clu c (fc_code c ++ code) L' U') (put_levs cs E') fs'
-  | None => errd (comp_stmt cf s (stk c cs fs))
-  end.
+Lemma comp_stmt_N : forall cf s, stmt6w s = true -> forall c cs fs,
+  noret s || retok c = true -> c_break_pops_first cf || nobrk s = true ->
+  res_ok c cs (nstmt cf s (fc_locals c) (fc_depth c) (fc_ups c) (map lev_of cs) fs (code_size (fc_code c)))
+         (comp_stmt cf s (stk c cs fs)).
 Proof.
-  intros cf s Hs. change (stmt_goalN cf s). pattern s. revert s Hs. apply stmt5w_ind.
+  intros cf s Hs. change (stmt_goalN cf s). pattern s. revert s Hs. apply stmt6w_ind.
   - (* SDecl *)
-    intros x e He c cs fs _. cbn [nstmt comp_stmt]. unfold declare_variable. rewrite top_of_stk.
+    intros x e He c cs fs _ _. apply res_ok_simple; [reflexivity|].
+    cbn [nstmt comp_stmt]. unfold declare_variable. rewrite top_of_stk.
     destruct (fc_depth c =? 0) eqn:Ed.
     + pose proof (comp_expr_N cf e He c cs fs) as Hc.
       destruct (nexpr cf (fc_locals c) e (fc_ups c) (map lev_of cs)) as [[[ce U'] E']|].
@@ -833,7 +1485,7 @@ Proof.
               unfold mark_initialised, on_top, stk. cbn. rewrite Ed. reflexivity.
            ++ now apply errd_define_variable.
   - (* SAssign *)
-    intros x e He c cs fs _. cbn [nstmt comp_stmt].
+    intros x e He c cs fs _ _. apply res_ok_simple; [reflexivity|]. cbn [nstmt comp_stmt].
     pose proof (resolve_variable_stk cf x c cs fs) as Hr.
     destruct (rvn cf (fc_locals c) (fc_ups c) (map lev_of cs) x) as [[[r U0] E0]|] eqn:Er.
     + rewrite Hr. pose proof (ninv_length _ _ _ _ (rvn_inv _ _ _ _ _ _ _ _ Er)) as Hl0. rewrite map_length in Hl0.
@@ -846,20 +1498,21 @@ Proof.
     + destruct (resolve_variable cf x (stk c cs fs)) as [st1 r]. apply errd_emit, errd_emit.
       apply errd_comp_expr2; [exact He|exact Hr].
   - (* SPrint *)
-    intros e He c cs fs _. cbn [nstmt comp_stmt]. rewrite emit_stk.
+    intros e He c cs fs _ _. apply res_ok_simple; [reflexivity|]. cbn [nstmt comp_stmt]. rewrite emit_stk.
     pose proof (comp_expr_N cf e He (set_code c (fc_code c ++ [IGetGlobal GPrint])) cs fs) as Hc.
     cbn [fc_locals fc_ups fc_code set_code] in Hc.
     destruct (nexpr cf (fc_locals c) e (fc_ups c) (map lev_of cs)) as [[[ce U'] E']|].
     + rewrite Hc, !emit_stk. cbn. rewrite <- !app_assoc. reflexivity.
     + now apply errd_emit, errd_emit.
   - (* SExpr *)
-    intros e He c cs fs _. cbn [nstmt comp_stmt].
+    intros e He c cs fs _ _. apply res_ok_simple; [reflexivity|]. cbn [nstmt comp_stmt].
     pose proof (comp_expr_N cf e He c cs fs) as Hc.
     destruct (nexpr cf (fc_locals c) e (fc_ups c) (map lev_of cs)) as [[[ce U'] E']|].
     + rewrite Hc, !emit_stk. cbn. rewrite <- !app_assoc. reflexivity.
     + now apply errd_emit.
   - (* SReturn *)
-    intros e He c cs fs Hn. cbn [noret orb] in Hn. unfold retok in Hn. apply andb_prop in Hn as [Hsc Ht].
+    intros e He c cs fs Hn _. apply res_ok_simple; [reflexivity|].
+    cbn [noret orb] in Hn. unfold retok in Hn. apply andb_prop in Hn as [Hsc Ht].
     apply negb_true_iff in Hsc. apply negb_true_iff in Ht.
     cbn [nstmt comp_stmt]. cbv zeta. rewrite top_of_stk, Hsc.
     pose proof (comp_expr_N cf e He c cs fs) as Hc.
@@ -868,43 +1521,33 @@ Proof.
       rewrite emit_stk. cbn. rewrite <- !app_assoc. reflexivity.
     + destruct (fc_intry (top_of _)); [apply errd_fail|now apply errd_emit].
   - (* SBlock *)
-    intros b Hb IH c cs fs Hn. rewrite nstmt_block, comp_stmt_block.
-    change (begin_scope (stk c cs fs)) with (stk (set_depth c (S (fc_depth c))) cs fs).
-    pose proof (comp_list_N_aux cf b IH Hb (set_depth c (S (fc_depth c))) cs fs Hn) as Hl.
-    cbn [fc_locals fc_depth fc_ups fc_code set_depth] in Hl.
-    destruct (nlist cf b (S (fc_depth c)) (fc_locals c) (fc_ups c) (map lev_of cs) fs) as [[[[[cb L'] U'] E'] fs']|].
-    + rewrite Hl. unfold end_scope, on_top, stk. cbn [cs_comps cs_funs cs_err]. unfold top_of. cbn [cs_comps].
-      cbn [fc_depth set_depth with_clu]. replace (S (fc_depth c) - 1) with (fc_depth c) by lia.
-      unfold emit_scope_end, top_of. cbn [cs_comps fc_locals set_depth with_clu].
-      pose proof (emits_stk (scope_end_ops L' (fc_depth c))
-                   (set_depth (with_clu (set_depth c (S (fc_depth c))) (fc_code c ++ cb) L' U') (fc_depth c))
-                   (put_levs cs E') fs') as Hem.
-      unfold stk in Hem. cbn [fc_depth set_depth with_clu fc_code fc_locals] in Hem |- *.
-      rewrite Hem. unfold on_top. cbn. now rewrite <- app_assoc.
-    + now apply errd_end_scope.
+    intros b Hb IH c cs fs Hn Hk. rewrite comp_stmt_block.
+    eapply res_ok_ext; [intros lc; apply nstmt_block|]. apply comp_blk_N_aux; assumption.
   - (* SFun *)
-    intros f ps b Hb IH c cs fs _. rewrite comp_stmt_fun, nstmt_fun. unfold declare_variable. rewrite top_of_stk.
+    intros f ps b Hb IH c cs fs _ Hk. apply res_ok_simple; [intros X; rewrite !nstmt_fun; reflexivity|].
+    cbn [nobrk] in Hk.
+    rewrite comp_stmt_fun, nstmt_fun. unfold declare_variable. rewrite top_of_stk.
     destruct (fc_depth c =? 0) eqn:Ed.
     + assert (Em : mark_initialised (stk c cs fs) = stk c cs fs).
       { unfold mark_initialised, on_top, stk. cbn [cs_comps cs_funs cs_err]. now rewrite Ed. }
-      rewrite Em. pose proof (comp_func_N_aux cf ps b IH Hb c cs fs) as Hf.
+      rewrite Em. pose proof (comp_func_N_aux cf ps b IH Hb Hk c cs fs) as Hf.
       destruct (nfunc cf ps b (fc_locals c) (fc_ups c) (map lev_of cs) fs) as [[[[[ci L'] U'] E'] fs']|].
       * rewrite Hf. unfold define_variable, at_top_level. rewrite top_of_stk. cbn [fc_depth with_clu]. rewrite Ed.
         rewrite emit_stk. cbn. now rewrite <- app_assoc.
       * now apply errd_define_variable.
     + destruct (dup_in_scope (fc_locals c) f (fc_depth c)) eqn:Edup.
-      * apply errd_define_variable, errd_finalise_function. apply errd_comp_list5w; [exact Hb|].
+      * apply errd_define_variable, errd_finalise_function. apply errd_comp_list6w; [exact Hb|].
         apply errd_open_function, errd_mark_initialised.
         unfold add_local. destruct (_ =? c_locals_max cf); [apply errd_fail|apply errd_on_top, errd_fail].
       * unfold add_local. rewrite top_of_stk.
         destruct (List.length (fc_locals c) =? c_locals_max cf) eqn:Emax.
-        -- apply errd_define_variable, errd_finalise_function. apply errd_comp_list5w; [exact Hb|].
+        -- apply errd_define_variable, errd_finalise_function. apply errd_comp_list6w; [exact Hb|].
            apply errd_open_function, errd_mark_initialised, errd_fail.
         -- assert (Em : mark_initialised (on_top (fun c0 : fcomp => set_locals c0 (mkLocal (Some f) None false :: fc_locals c0)) (stk c cs fs))
                         = stk (set_locals c (mkLocal (Some f) (Some (fc_depth c)) false :: fc_locals c)) cs fs).
            { unfold mark_initialised, on_top, stk. cbn. now rewrite Ed. }
            rewrite Em.
-           pose proof (comp_func_N_aux cf ps b IH Hb (set_locals c (mkLocal (Some f) (Some (fc_depth c)) false :: fc_locals c)) cs fs) as Hf.
+           pose proof (comp_func_N_aux cf ps b IH Hb Hk (set_locals c (mkLocal (Some f) (Some (fc_depth c)) false :: fc_locals c)) cs fs) as Hf.
            cbn [fc_locals fc_ups fc_code set_locals] in Hf.
            destruct (nfunc cf ps b (mkLocal (Some f) (Some (fc_depth c)) false :: fc_locals c) (fc_ups c) (map lev_of cs) fs)
              as [[[[[ci L'] U'] E'] fs']|] eqn:Ef.
@@ -916,24 +1559,26 @@ Proof.
               destruct l0 as [n0 d0 c0]. cbn in En, Edp |- *. subst n0 d0. reflexivity.
            ++ now apply errd_define_variable.
   - (* SLam *)
-    intros x ps b Hb IH c cs fs _. rewrite comp_stmt_lam, nstmt_lam. unfold declare_variable. rewrite top_of_stk.
+    intros x ps b Hb IH c cs fs _ Hk. apply res_ok_simple; [intros X; rewrite !nstmt_lam; reflexivity|].
+    cbn [nobrk] in Hk.
+    rewrite comp_stmt_lam, nstmt_lam. unfold declare_variable. rewrite top_of_stk.
     destruct (fc_depth c =? 0) eqn:Ed.
-    + pose proof (comp_func_N_aux cf ps b IH Hb c cs fs) as Hf.
+    + pose proof (comp_func_N_aux cf ps b IH Hb Hk c cs fs) as Hf.
       destruct (nfunc cf ps b (fc_locals c) (fc_ups c) (map lev_of cs) fs) as [[[[[ci L'] U'] E'] fs']|].
       * rewrite Hf. unfold define_variable, at_top_level. rewrite top_of_stk. cbn [fc_depth with_clu]. rewrite Ed.
         rewrite emit_stk. cbn. now rewrite <- app_assoc.
       * now apply errd_define_variable.
     + destruct (dup_in_scope (fc_locals c) x (fc_depth c)) eqn:Edup.
-      * apply errd_define_variable, errd_finalise_function. apply errd_comp_list5w; [exact Hb|].
+      * apply errd_define_variable, errd_finalise_function. apply errd_comp_list6w; [exact Hb|].
         apply errd_open_function.
         unfold add_local. destruct (_ =? c_locals_max cf); [apply errd_fail|apply errd_on_top, errd_fail].
       * unfold add_local. rewrite top_of_stk.
         destruct (List.length (fc_locals c) =? c_locals_max cf) eqn:Emax.
-        -- apply errd_define_variable, errd_finalise_function. apply errd_comp_list5w; [exact Hb|].
+        -- apply errd_define_variable, errd_finalise_function. apply errd_comp_list6w; [exact Hb|].
            apply errd_open_function, errd_fail.
         -- change (on_top (fun c0 : fcomp => set_locals c0 (mkLocal (Some x) None false :: fc_locals c0)) (stk c cs fs))
              with (stk (set_locals c (mkLocal (Some x) None false :: fc_locals c)) cs fs).
-           pose proof (comp_func_N_aux cf ps b IH Hb (set_locals c (mkLocal (Some x) None false :: fc_locals c)) cs fs) as Hf.
+           pose proof (comp_func_N_aux cf ps b IH Hb Hk (set_locals c (mkLocal (Some x) None false :: fc_locals c)) cs fs) as Hf.
            cbn [fc_locals fc_ups fc_code set_locals] in Hf.
            destruct (nfunc cf ps b (mkLocal (Some x) None false :: fc_locals c) (fc_ups c) (map lev_of cs) fs)
              as [[[[[ci L'] U'] E'] fs']|] eqn:Ef.
@@ -943,35 +1588,231 @@ Proof.
               unfold define_variable, at_top_level. rewrite top_of_stk. cbn [fc_depth with_clu set_locals]. rewrite Ed.
               unfold mark_initialised, on_top, stk. cbn. rewrite Ed, <- En. reflexivity.
            ++ now apply errd_define_variable.
+  - (* SLoop *)
+    intros i n b Hb IH c cs fs Hn Hk. apply res_ok_simple; [intros X; rewrite !nstmt_loop; reflexivity|].
+    cbn [noret nobrk] in Hn, Hk.
+    rewrite nstmt_loop, comp_stmt_loop. destruct c as [code L U d lo br it ar sc].
+    cbn [fc_locals fc_depth fc_ups fc_code].
+    change (begin_scope (stk (mkFC code L U d lo br it ar sc) cs fs)) with (stk (mkFC code L U (S d) lo br it ar sc) cs fs).
+    unfold declare_variable. rewrite top_of_stk. cbn [fc_depth fc_locals]. change (S d =? 0) with false. cbv iota.
+    destruct (dup_in_scope L i (S d)) eqn:Edup.
+    { apply errd_loop_mid; [now apply stmt6w_all_sticky|]. apply errd_add_local, errd_fail. }
+    unfold add_local. rewrite top_of_stk. cbn [fc_locals].
+    destruct (List.length L =? c_locals_max cf) eqn:Emax.
+    { apply errd_loop_mid; [now apply stmt6w_all_sticky|]. apply errd_fail. }
+    rewrite on_top_stk. unfold set_locals. cbn [fc_code fc_locals fc_ups fc_depth fc_loops fc_breaks fc_intry fc_arity fc_script].
+    destruct (S (List.length L) =? c_locals_max cf) eqn:Emax2.
+    { now apply loop_mid_max. }
+    rewrite (loop_mid_stk cf n b code i L U d lo br it ar sc cs fs Emax2). cbv zeta.
+    set (start := code_size (code ++ loop_pre n)).
+    set (c7 := mkFC (code ++ loop_pre n ++ loop_head (List.length L) 0) (loop_locals i d L) U (S d) ((start, S d) :: lo) ([] :: br) it ar sc).
+    pose proof (comp_blk_N_aux cf b IH Hb c7 cs fs Hn Hk) as Hblk. unfold res_ok in Hblk.
+    change (lc_of c7) with (fun X => Some (mkLctx start (S d) X)) in Hblk. cbv beta in Hblk.
+    cbn [c7 fc_code fc_locals fc_ups fc_depth] in Hblk.
+    assert (Hstart : start = code_size code + code_size (loop_pre n)) by (unfold start; apply code_size_app).
+    assert (Hposb : code_size (code ++ loop_pre n ++ loop_head (List.length L) 0) =
+                    start + code_size (loop_head (List.length L) 0)).
+    { unfold start. rewrite app_assoc. apply code_size_app. }
+    rewrite Hposb in Hblk. rewrite <- Hstart.
+    destruct (nblk cf b (S d) (loop_locals i d L) U (map lev_of cs) fs
+                (start + code_size (loop_head (List.length L) 0)) (Some (mkLctx start (S d) 0)))
+      as [[[[[c0 L0] U0] E0] fs0]|] eqn:E0'.
+    + destruct Hblk as (m & Hm & Hst & HX). rewrite HX.
+      unfold with_club in Hst. subst c7. cbn [fc_code fc_locals fc_ups fc_depth fc_loops fc_breaks fc_intry fc_arity fc_script add_brks] in Hst.
+      subst start.
+      rewrite (loop_tail_stk cf b code (loop_pre n) (List.length L) (loop_locals i d L) U d lo br it ar sc cs fs c0 m L0 U0 (put_levs cs E0) fs0 Hst Hm).
+      unfold with_clu. cbn [fc_code fc_locals fc_ups fc_depth fc_loops fc_breaks fc_intry fc_arity fc_script].
+      rewrite Hstart. reflexivity.
+    + unfold loop_tail. cbv zeta. now apply errd_end_scope, errd_pop_loop, errd_emit, errd_patch_jump, errd_emit_loop.
+  - (* SIf *)
+    intros a c0 t e Ha Hc Ht He IHt IHe c cs fs Hn Hk. cbn [noret nobrk] in Hn, Hk.
+    assert (Hnn : forallb noret t || retok c = true /\ forallb noret e || retok c = true).
+    { destruct (forallb noret t), (forallb noret e), (retok c); cbn in Hn |- *; auto. }
+    assert (Hkk : c_break_pops_first cf || forallb nobrk t = true /\ c_break_pops_first cf || forallb nobrk e = true).
+    { destruct (forallb nobrk t), (forallb nobrk e), (c_break_pops_first cf); cbn in Hk |- *; auto. }
+    destruct Hnn as [Hnt Hne]. destruct Hkk as [Hkt Hke].
+    pose proof (stmt6w_all_sticky cf t Ht) as St. pose proof (stmt6w_all_sticky cf e He) as Se.
+    rewrite comp_stmt_if. eapply res_ok_ext; [intros lc; apply nstmt_if|]. cbv zeta.
+    destruct c as [code L U d lo br it ar sc]. set (c := mkFC code L U d lo br it ar sc) in *.
+    unfold res_ok. cbn [c fc_code fc_locals fc_ups fc_depth].
+    pose proof (comp_expr_N cf a Ha c cs fs) as Hca. cbn [c fc_code fc_locals fc_ups] in Hca.
+    destruct (nexpr cf L a U (map lev_of cs)) as [[[ca U1] E1]|] eqn:Ea.
+    2:{ apply errd_if_tail; [exact Se|]. apply errd_blockS; [exact St|]. apply errd_emits, errd_emit.
+        apply errd_comp_expr2; [exact Hc|exact Hca]. }
+    fold c. rewrite Hca. unfold set_ups, set_code. cbn [c fc_code fc_locals fc_ups fc_depth fc_loops fc_breaks fc_intry fc_arity fc_script].
+    pose proof (nexpr_len cf a Ha _ _ _ _ _ _ Ea) as Hl1. rewrite map_length in Hl1.
+    pose proof (comp_expr_N cf c0 Hc (mkFC (code ++ ca) L U1 d lo br it ar sc) (put_levs cs E1) fs) as Hcc.
+    cbn [fc_code fc_locals fc_ups] in Hcc. rewrite (map_lev_of_put_levs cs E1 Hl1) in Hcc.
+    destruct (nexpr cf L c0 U1 E1) as [[[cc U2] E2]|] eqn:Ec.
+    2:{ apply errd_if_tail; [exact Se|]. apply errd_blockS; [exact St|]. apply errd_emits, errd_emit. exact Hcc. }
+    rewrite Hcc. unfold set_ups, set_code. cbn [fc_code fc_locals fc_ups fc_depth fc_loops fc_breaks fc_intry fc_arity fc_script].
+    pose proof (nexpr_len cf c0 Hc _ _ _ _ _ _ Ec) as Hl2.
+    rewrite put_levs_put_levs by lia.
+    rewrite emit_mk. unfold here_ix. rewrite top_of_stk. cbn [fc_code]. rewrite emits_mk.
+    set (pre := (ca ++ cc ++ [ILess])%list).
+    replace (((code ++ ca) ++ cc) ++ [ILess])%list with (code ++ pre)%list by (unfold pre; now rewrite !app_assoc).
+    replace ((code ++ pre) ++ [IJumpIfFalse 0; IPop])%list with (code ++ pre ++ [IJumpIfFalse 0; IPop])%list by (now rewrite app_assoc).
+    set (c2 := mkFC (code ++ pre ++ [IJumpIfFalse 0; IPop]) L U2 d lo br it ar sc).
+    pose proof (comp_blk_N_aux cf t IHt Ht c2 (put_levs cs E2) fs Hnt Hkt) as Hbt. unfold res_ok in Hbt.
+    change (lc_of c2) with (lc_of c) in Hbt. cbn [c2 fc_code fc_locals fc_ups fc_depth] in Hbt.
+    rewrite (map_lev_of_put_levs cs E2) in Hbt by lia.
+    assert (Hpost : code_size (code ++ pre ++ [IJumpIfFalse 0; IPop]) =
+                    code_size code + code_size ca + code_size cc + code_size [ILess; IJumpIfFalse 0; IPop]).
+    { unfold pre. rewrite !code_size_app. cbn [code_size isize]. lia. }
+    rewrite Hpost in Hbt.
+    destruct (nblk cf t d L U2 E2 fs (code_size code + code_size ca + code_size cc + code_size [ILess; IJumpIfFalse 0; IPop]) (lc_of c 0))
+      as [[[[[ct L1] U3] E3] fs1]|] eqn:Et.
+    2:{ apply errd_if_tail; [exact Se|exact Hbt]. }
+    destruct Hbt as (mt & Hmt & Hstt & HXt). rewrite Hstt. unfold with_club.
+    cbn [c2 fc_code fc_locals fc_ups fc_depth fc_loops fc_breaks fc_intry fc_arity fc_script].
+    pose proof (nblk_len cf t Ht _ _ _ _ _ _ _ _ _ _ _ _ Et) as Hl3.
+    rewrite put_levs_put_levs by lia.
+    set (br1 := add_brks (ixs (List.length (code ++ pre ++ [IJumpIfFalse 0; IPop])) mt) br).
+    set (c3 := mkFC (code ++ pre ++ [IJumpIfFalse (1 + code_size ct + 3); IPop] ++ ct ++ [IJump 0; IPop]) L1 U3 d lo br1 it ar sc).
+    pose proof (comp_blk_N_aux cf e IHe He c3 (put_levs cs E3) fs1 Hne Hke) as Hbe. unfold res_ok in Hbe.
+    change (lc_of c3) with (lc_of c) in Hbe. cbn [c3 fc_code fc_locals fc_ups fc_depth] in Hbe.
+    rewrite (map_lev_of_put_levs cs E3) in Hbe by lia.
+    assert (Hpose : code_size (code ++ pre ++ [IJumpIfFalse (1 + code_size ct + 3); IPop] ++ ct ++ [IJump 0; IPop]) =
+                    code_size code + code_size ca + code_size cc + code_size [ILess; IJumpIfFalse 0; IPop]
+                    + code_size ct + code_size [IJump 0; IPop]).
+    { unfold pre. rewrite !code_size_app. cbn [code_size isize]. lia. }
+    rewrite Hpose in Hbe.
+    destruct (nblk cf e d L1 U3 E3 fs1 (code_size code + code_size ca + code_size cc + code_size [ILess; IJumpIfFalse 0; IPop]
+                                       + code_size ct + code_size [IJump 0; IPop]) (lc_of c 0))
+      as [[[[[cel L2] U4] E4] fs2]|] eqn:Ee.
+    2:{ unfold if_tail. cbv zeta. apply errd_patch_jump. rewrite if_mid_stk. exact Hbe. }
+    destruct Hbe as (me & Hme & Hste & HXe). unfold with_club in Hste.
+    cbn [c3 fc_code fc_locals fc_ups fc_depth fc_loops fc_breaks fc_intry fc_arity fc_script] in Hste.
+    rewrite (if_tail_stk cf e code pre ct L1 U3 d lo br1 it ar sc (put_levs cs E3) fs1 cel L2 U4 _ _ _ Hste).
+    pose proof (nblk_len cf e He _ _ _ _ _ _ _ _ _ _ _ _ Ee) as Hl4.
+    rewrite put_levs_put_levs by lia.
+    exists (repeat false (List.length (ca ++ cc ++ [ILess; IJumpIfFalse 0; IPop])) ++ mt ++ repeat false 2 ++ me)%list.
+    split; [rewrite !app_length, !repeat_length; cbn [List.length]; lia|]. split.
+    + unfold with_club. cbn [c fc_code fc_locals fc_ups fc_depth fc_loops fc_breaks fc_intry fc_arity fc_script].
+      f_equal. f_equal.
+      * unfold pre. norm_app. reflexivity.
+      * unfold br1. rewrite add_brks_add. f_equal.
+        rewrite !ixs_app, !ixs_nomask, !repeat_length. cbn [app]. f_equal; f_equal.
+        -- unfold pre. repeat (rewrite app_length || cbn [List.length]). lia.
+        -- unfold pre. repeat (rewrite app_length || cbn [List.length]). lia.
+    + intros X. rewrite HXt. cbv beta iota. rewrite bpm_size, HXe. cbv beta iota. rewrite !bpm_size.
+      f_equal. f_equal. f_equal. f_equal. f_equal.
+      replace (ca ++ cc ++ [ILess; IJumpIfFalse (1 + code_size ct + 3); IPop] ++ ct ++ [IJump (1 + code_size cel); IPop] ++ cel)%list
+        with ((ca ++ cc ++ [ILess; IJumpIfFalse (1 + code_size ct + 3); IPop]) ++ ct ++ [IJump (1 + code_size cel); IPop] ++ cel)%list
+        by (norm_app; reflexivity).
+      rewrite bpm_app by (rewrite repeat_length, !app_length; reflexivity).
+      rewrite bpm_nomask. rewrite bpm_app by exact Hmt. rewrite (bpm_app X (repeat false 2)) by reflexivity.
+      rewrite bpm_nomask. norm_app.
+      assert (P1 : code_size code + code_size (ca ++ cc ++ [ILess; IJumpIfFalse (1 + code_size ct + 3); IPop]) =
+                   code_size code + code_size ca + code_size cc + code_size [ILess; IJumpIfFalse 0; IPop]).
+      { rewrite !code_size_app. cbn [code_size isize]. lia. }
+      rewrite P1. change (code_size [IJump (1 + code_size cel); IPop]) with (code_size [IJump 0; IPop]). reflexivity.
+  - (* SBreak *)
+    intros c cs fs _ Hk. cbn [nobrk] in Hk. rewrite orb_false_r in Hk.
+    unfold res_ok, lc_of. cbn [nstmt comp_stmt]. rewrite top_of_stk.
+    destruct (fc_loops c) as [|[s0 d0] r] eqn:El; [apply errd_fail|].
+    rewrite Hk. cbn [lc_depth lc_exit Nat.sub].
+    set (ops := scope_end_ops (fc_locals c) d0).
+    exists (repeat false (List.length ops) ++ [true])%list.
+    split; [rewrite !app_length, repeat_length; reflexivity|]. split.
+    + unfold emit_scope_end. cbv zeta. rewrite top_of_stk. fold ops. rewrite emits_stk, emit_stk.
+      unfold here_ix. rewrite top_of_stk. rewrite put_levs_id, ixs_app, ixs_nomask, repeat_length.
+      unfold push_break. rewrite on_top_stk. unfold with_club. destruct c as [code L U d lo br it ar sc].
+      cbn [set_code set_loops fc_code fc_locals fc_ups fc_depth fc_loops fc_breaks fc_intry fc_arity fc_script ixs app].
+      destruct br as [|b0 r0]; unfold set_loops, add_brks;
+        cbn [fc_code fc_locals fc_ups fc_depth fc_loops fc_breaks fc_intry fc_arity fc_script];
+        rewrite ?app_length, <- ?app_assoc; reflexivity.
+    + intros X. rewrite bpm_app by (apply repeat_length). rewrite bpm_nomask. reflexivity.
+  - (* SContinue *)
+    intros c cs fs _ _. apply res_ok_simple.
+    { intros X. unfold lc_of. destruct (fc_loops c) as [|[s0 d0] r]; reflexivity. }
+    unfold lc_of. cbn [nstmt comp_stmt]. rewrite top_of_stk.
+    destruct (fc_loops c) as [|[s0 d0] r] eqn:El; [apply errd_fail|].
+    cbn [lc_depth lc_start].
+    unfold emit_scope_end. cbv zeta. rewrite top_of_stk. rewrite emits_stk.
+    unfold emit_loop, here_bytes. rewrite top_of_stk, emit_stk. rewrite put_levs_id.
+    destruct c as [code L U d lo br it ar sc]. unfold with_clu.
+    cbn [set_code fc_code fc_locals fc_ups fc_depth fc_loops fc_breaks fc_intry fc_arity fc_script].
+    rewrite code_size_app, <- app_assoc. reflexivity.
 Qed.
 
-Lemma stmt5w_all_goalN : forall cf b, forallb stmt5w b = true -> Forall (stmt_goalN cf) b.
+Lemma stmt6w_all_goalN : forall cf b, forallb stmt6w b = true -> Forall (stmt_goalN cf) b.
 Proof.
   intros cf b Hb. induction b as [|a r IH]; constructor.
   - cbn in Hb. apply andb_prop in Hb as [Ha _]. intros c cs fs. now apply comp_stmt_N.
   - cbn in Hb. apply andb_prop in Hb as [_ Hr]. now apply IH.
 Qed.
 
-Lemma comp_list_N : forall cf b, forallb stmt5w b = true -> forall c cs fs,
-  forallb noret b || retok c = true ->
-  match nlist cf b (fc_depth c) (fc_locals c) (fc_ups c) (map lev_of cs) fs with
-  | Some (code, L', U', E', fs') => comp_list cf b (stk c cs fs) =
-       stk (with_clu c (fc_code c ++ code) L' U') (put_levs cs E') fs'
-  | None => errd (comp_list cf b (stk c cs fs))
-  end.
-Proof. intros cf b Hb. apply comp_list_N_aux; [now apply stmt5w_all_goalN|exact Hb]. Qed.
+Lemma comp_list_N : forall cf b, forallb stmt6w b = true -> forall c cs fs,
+  forallb noret b || retok c = true -> c_break_pops_first cf || forallb nobrk b = true ->
+  res_ok c cs (nlist cf b (fc_depth c) (fc_locals c) (fc_ups c) (map lev_of cs) fs (code_size (fc_code c)))
+         (comp_list cf b (stk c cs fs)).
+Proof. intros cf b Hb. apply comp_list_N_aux; [now apply stmt6w_all_goalN|exact Hb]. Qed.
 
-Lemma comp_func_N : forall cf ps b, forallb stmt5w b = true -> forall c cs fs,
+Lemma comp_blk_N : forall cf b, forallb stmt6w b = true -> forall c cs fs,
+  forallb noret b || retok c = true -> c_break_pops_first cf || forallb nobrk b = true ->
+  res_ok c cs (nblk cf b (fc_depth c) (fc_locals c) (fc_ups c) (map lev_of cs) fs (code_size (fc_code c)))
+         (end_scope (comp_list cf b (begin_scope (stk c cs fs)))).
+Proof. intros cf b Hb. apply comp_blk_N_aux; [now apply stmt6w_all_goalN|exact Hb]. Qed.
+
+Lemma comp_func_N : forall cf ps b, forallb stmt6w b = true -> c_break_pops_first cf || forallb nobrk b = true ->
+  forall c cs fs,
   match nfunc cf ps b (fc_locals c) (fc_ups c) (map lev_of cs) fs with
   | Some (ci, L', U', E', fs') =>
       finalise_function (comp_list cf b (open_function cf ps (stk c cs fs))) =
       stk (with_clu c (fc_code c ++ [ci]) L' U') (put_levs cs E') fs'
   | None => errd (finalise_function (comp_list cf b (open_function cf ps (stk c cs fs))))
   end.
-Proof. intros cf ps b Hb. apply comp_func_N_aux; [now apply stmt5w_all_goalN|exact Hb]. Qed.
+Proof. intros cf ps b Hb. apply comp_func_N_aux; [now apply stmt6w_all_goalN|exact Hb]. Qed.
+
+(* outside a loop (in particular at script level and at the start of a function body) nothing is pending: the
+   correspondence in its plain form *)
+Lemma comp_list_N_noloop : forall cf b, forallb stmt6w b = true -> forall c cs fs,
+  forallb noret b || retok c = true -> c_break_pops_first cf || forallb nobrk b = true -> fc_loops c = [] ->
+  match nlist cf b (fc_depth c) (fc_locals c) (fc_ups c) (map lev_of cs) fs (code_size (fc_code c)) None with
+  | Some (code, L', U', E', fs') => exists bs,
+      comp_list cf b (stk c cs fs) = stk (with_club c (fc_code c ++ code) L' U' bs) (put_levs cs E') fs'
+  | None => errd (comp_list cf b (stk c cs fs))
+  end.
+Proof.
+  intros cf b Hb c cs fs Hn Hk Hl. pose proof (comp_list_N cf b Hb c cs fs Hn Hk) as H. unfold res_ok, lc_of in H.
+  rewrite Hl in H.
+  destruct (nlist cf b (fc_depth c) (fc_locals c) (fc_ups c) (map lev_of cs) fs (code_size (fc_code c)) None)
+    as [[[[[code L'] U'] E'] fs']|]; [|exact H].
+  destruct H as (m & _ & Hst & _). eexists. exact Hst.
+Qed.
+
+(* the statements of the old fragment do not look at the position or at the loop context *)
+Definition irr_goal (cf : cfg) (s : stmt) : Prop := forall L d U E fs pos lc pos' lc',
+  nstmt cf s L d U E fs pos lc = nstmt cf s L d U E fs pos' lc'.
+
+Lemma nlist_irr_aux : forall cf b, Forall (irr_goal cf) b -> forall d L U E fs pos lc pos' lc',
+  nlist cf b d L U E fs pos lc = nlist cf b d L U E fs pos' lc'.
+Proof.
+  intros cf b H. induction H as [|a r Ha Hr IH]; intros d L U E fs pos lc pos' lc'; [reflexivity|].
+  cbn [nlist]. rewrite (Ha L d U E fs pos lc pos' lc').
+  destruct (nstmt cf a L d U E fs pos' lc') as [[[[[ca L1] U1] E1] fs1]|]; [|reflexivity].
+  now rewrite (IH d L1 U1 E1 fs1 (pos + code_size ca) lc (pos' + code_size ca) lc').
+Qed.
+
+Lemma nstmt_pos_lc_irrelevant : forall cf s, stmt5w s = true -> forall L d U E fs pos lc pos' lc',
+  nstmt cf s L d U E fs pos lc = nstmt cf s L d U E fs pos' lc'.
+Proof.
+  intros cf s Hs. change (irr_goal cf s). pattern s. revert s Hs. apply stmt5w_ind; unfold irr_goal; try reflexivity.
+  - intros b Hb IH L d U E fs pos lc pos' lc'. rewrite !nstmt_block. unfold nblk.
+    now rewrite (nlist_irr_aux cf b IH (S d) L U E fs pos lc pos' lc').
+Qed.
+
+Lemma nlist_pos_lc_irrelevant : forall cf b, forallb stmt5w b = true -> forall d L U E fs pos lc pos' lc',
+  nlist cf b d L U E fs pos lc = nlist cf b d L U E fs pos' lc'.
+Proof.
+  intros cf b Hb. apply nlist_irr_aux. induction b as [|a r IH]; constructor.
+  - cbn in Hb. apply andb_prop in Hb as [Ha _]. unfold irr_goal. now apply nstmt_pos_lc_irrelevant.
+  - cbn in Hb. apply andb_prop in Hb as [_ Hr]. now apply IH.
+Qed.
 
 (* a `return` outside a function body (or inside a try) is a compile error: the side condition of comp_stmt_N
-   cannot be dropped, and where it fails the stateful compiler reports an error *)
+   cannot be dropped, and where it fails the stateful compiler reports an error (old fragment) *)
 Definition ret_err_goal (cf : cfg) (s : stmt) : Prop := forall c cs fs,
   noret s = false -> retok c = false -> errd (comp_stmt cf s (stk c cs fs)).
 
@@ -982,9 +1823,11 @@ Proof.
   cbn in Hb. apply andb_prop in Hb as [Hb1 Hb2]. rewrite comp_list_cons. cbn [forallb] in Hn.
   destruct (noret a) eqn:Hna.
   - cbn [andb] in Hn.
-    pose proof (comp_stmt_N cf a Hb1 c cs fs) as Hc. rewrite Hna in Hc. specialize (Hc eq_refl).
-    destruct (nstmt cf a (fc_locals c) (fc_depth c) (fc_ups c) (map lev_of cs) fs) as [[[[[ca L1] U1] E1] fs1]|].
-    + rewrite Hc. apply IH; [exact Hb2|exact Hn|exact Hk].
+    pose proof (comp_stmt_N cf a (stmt5w_stmt6w a Hb1) c cs fs) as Hc. rewrite Hna in Hc.
+    specialize (Hc eq_refl). rewrite (stmt5w_nobrk a Hb1), orb_true_r in Hc. specialize (Hc eq_refl). unfold res_ok in Hc.
+    destruct (nstmt cf a (fc_locals c) (fc_depth c) (fc_ups c) (map lev_of cs) fs (code_size (fc_code c)) (lc_of c 0))
+      as [[[[[ca L1] U1] E1] fs1]|].
+    + destruct Hc as (m & _ & Hst & _). rewrite Hst. apply IH; [exact Hb2|exact Hn|exact Hk].
     + apply (errd_comp_list5w cf r Hb2). exact Hc.
   - apply (errd_comp_list5w cf r Hb2). apply Ha; [exact Hna|exact Hk].
 Qed.
@@ -1020,60 +1863,126 @@ Proof.
 Qed.
 
 (* ------------------------------------------------------------------------------------------ *)
-(* Part 6: the whole program: the functions in finalise order, then the script function = the pure code followed
-   by Nil; Return.  The script has no enclosing level: its upvalue list stays empty. *)
-Theorem compile_scope_stage2_shape : forall cf p funs, forallb stmt5w p = true -> compile_scope cf p = Some funs ->
-  exists code L' fs', nlist cf p 0 [mkLocal None (Some 0) false] [] [] [] = Some (code, L', [], [], fs') /\
+(* Part 8: the whole program: the functions in finalise order, then the script function = the pure code followed
+   by Nil; Return.  The script has no enclosing level: its upvalue list stays empty; it is in no loop. *)
+Theorem compile_scope_shape6w : forall cf p funs,
+  forallb stmt6w p = true -> forallb noret p = true -> c_break_pops_first cf || forallb nobrk p = true ->
+  compile_scope cf p = Some funs ->
+  exists code L' fs', nlist cf p 0 [mkLocal None (Some 0) false] [] [] [] 0 None = Some (code, L', [], [], fs') /\
                       funs = (fs' ++ [mkFunc (code ++ [INil; IReturn]) 0 0])%list.
 Proof.
-  intros cf p funs Hp Hc. unfold compile_scope, comp_prog in Hc.
+  intros cf p funs Hp Hn Hk Hc. unfold compile_scope, comp_prog in Hc.
   change (fold_left (fun s a => comp_stmt cf a s) p (mkCst [new_fcomp true] [] None))
     with (comp_list cf p (stk (new_fcomp true) [] [])) in Hc.
-  destruct (forallb noret p) eqn:Hn.
-  - pose proof (comp_list_N cf p Hp (new_fcomp true) [] []) as H. rewrite Hn in H. specialize (H eq_refl).
-    cbn [fc_locals fc_depth fc_ups new_fcomp map] in H.
-    destruct (nlist cf p 0 [mkLocal None (Some 0) false] [] [] []) as [[[[[code L'] U'] E'] fs']|] eqn:El.
-    + destruct (nlist_nil cf p Hp _ _ _ _ _ _ _ _ _ El) as [-> ->].
-      rewrite H in Hc. rewrite emits_stk in Hc. cbn in Hc. inversion Hc. exists code, L', fs'. split; reflexivity.
-    + exfalso. apply (errd_emits [INil; IReturn]) in H. unfold errd in H. destruct (cs_err _); [discriminate|congruence].
-  - exfalso. pose proof (comp_list_ret_err cf p Hp (new_fcomp true) [] [] Hn eq_refl) as H.
+  pose proof (comp_list_N_noloop cf p Hp (new_fcomp true) [] []) as H. rewrite Hn in H. specialize (H eq_refl Hk eq_refl).
+  cbn [fc_locals fc_depth fc_ups fc_code new_fcomp map code_size] in H.
+  destruct (nlist cf p 0 [mkLocal None (Some 0) false] [] [] [] 0 None) as [[[[[code L'] U'] E'] fs']|] eqn:El.
+  - destruct (nlist_nil cf p Hp _ _ _ _ _ _ _ _ _ _ _ El) as [-> ->]. destruct H as (bs & H).
+    rewrite H in Hc. rewrite emits_stk in Hc. cbn in Hc. inversion Hc. exists code, L', fs'. split; reflexivity.
+  - exfalso. apply (errd_emits [INil; IReturn]) in H. unfold errd in H. destruct (cs_err _); [discriminate|congruence].
+Qed.
+
+(* stage 4: loops, if / else, break, continue (the repaired order of break: scope-end operations, then the jump) *)
+Theorem compile_scope_stage4_shape : forall cf p funs, c_break_pops_first cf = true ->
+  forallb (stmt6 true false true false) p = true -> compile_scope cf p = Some funs ->
+  exists code L' fs', nlist cf p 0 [mkLocal None (Some 0) false] [] [] [] 0 None = Some (code, L', [], [], fs') /\
+                      funs = (fs' ++ [mkFunc (code ++ [INil; IReturn]) 0 0])%list.
+Proof.
+  intros cf p funs Hcf Hp. apply compile_scope_shape6w.
+  - revert Hp. apply forallb_imp. intros a. apply stmt6_stmt6w.
+  - revert Hp. apply forallb_imp. intros a. apply stmt6_noret.
+  - now rewrite Hcf.
+Qed.
+
+(* stage 3: loops and if / else, no break / continue: whichever order break is compiled in *)
+Corollary compile_scope_stage3_shape : forall cf p funs,
+  forallb (stmt6 false false true false) p = true -> compile_scope cf p = Some funs ->
+  exists code L' fs', nlist cf p 0 [mkLocal None (Some 0) false] [] [] [] 0 None = Some (code, L', [], [], fs') /\
+                      funs = (fs' ++ [mkFunc (code ++ [INil; IReturn]) 0 0])%list.
+Proof.
+  intros cf p funs Hp. apply compile_scope_shape6w.
+  - revert Hp. apply forallb_imp. intros a. apply stmt6_stmt6w.
+  - revert Hp. apply forallb_imp. intros a. apply stmt6_noret.
+  - apply orb_true_intro. right. revert Hp. apply forallb_imp. intros a. apply stmt6_nobrk.
+Qed.
+
+(* stage 2: the old fragment, with no hypothesis about `return` (a script-level return is a compile error) *)
+Theorem compile_scope_stage2_shape : forall cf p funs, forallb stmt5w p = true -> compile_scope cf p = Some funs ->
+  exists code L' fs', nlist cf p 0 [mkLocal None (Some 0) false] [] [] [] 0 None = Some (code, L', [], [], fs') /\
+                      funs = (fs' ++ [mkFunc (code ++ [INil; IReturn]) 0 0])%list.
+Proof.
+  intros cf p funs Hp Hc. destruct (forallb noret p) eqn:Hn.
+  - revert Hc. apply compile_scope_shape6w; [|exact Hn|].
+    + revert Hp. apply forallb_imp. apply stmt5w_stmt6w.
+    + apply orb_true_intro. right. revert Hp. apply forallb_imp. apply stmt5w_nobrk.
+  - exfalso. unfold compile_scope, comp_prog in Hc.
+    change (fold_left (fun s a => comp_stmt cf a s) p (mkCst [new_fcomp true] [] None))
+      with (comp_list cf p (stk (new_fcomp true) [] [])) in Hc.
+    pose proof (comp_list_ret_err cf p Hp (new_fcomp true) [] [] Hn eq_refl) as H.
     apply (errd_emits [INil; IReturn]) in H. unfold errd in H. destruct (cs_err _); [discriminate|congruence].
 Qed.
 
 (* the same for the fragment of ScopeDefsN.v *)
 Corollary compile_scope_stage2_shape5 : forall cf p funs, forallb (stmt5 false true) p = true ->
   compile_scope cf p = Some funs ->
-  exists code L' fs', nlist cf p 0 [mkLocal None (Some 0) false] [] [] [] = Some (code, L', [], [], fs') /\
+  exists code L' fs', nlist cf p 0 [mkLocal None (Some 0) false] [] [] [] 0 None = Some (code, L', [], [], fs') /\
                       funs = (fs' ++ [mkFunc (code ++ [INil; IReturn]) 0 0])%list.
 Proof.
-  intros cf p funs Hp. apply compile_scope_stage2_shape.
-  induction p as [|a r IH]; [reflexivity|]. cbn in Hp |- *. apply andb_prop in Hp as [Ha Hr].
-  apply andb_true_intro. split; [eapply stmt5_stmt5w; eauto|auto].
+  intros cf p funs Hp. apply compile_scope_stage2_shape. revert Hp. apply forallb_imp. intros a. apply stmt5_stmt5w.
 Qed.
 
 (* and conversely: when the pure compiler succeeds on a program without a script-level return, so does compile_scope *)
-Theorem compile_scope_stage2_complete : forall cf p code L' U' E' fs',
-  forallb stmt5w p = true -> forallb noret p = true ->
-  nlist cf p 0 [mkLocal None (Some 0) false] [] [] [] = Some (code, L', U', E', fs') ->
+Theorem compile_scope_stage4_complete : forall cf p code L' U' E' fs',
+  forallb stmt6w p = true -> forallb noret p = true -> c_break_pops_first cf || forallb nobrk p = true ->
+  nlist cf p 0 [mkLocal None (Some 0) false] [] [] [] 0 None = Some (code, L', U', E', fs') ->
   compile_scope cf p = Some (fs' ++ [mkFunc (code ++ [INil; IReturn]) 0 0])%list.
 Proof.
-  intros cf p code L' U' E' fs' Hp Hn El. unfold compile_scope, comp_prog.
+  intros cf p code L' U' E' fs' Hp Hn Hk El. unfold compile_scope, comp_prog.
   change (fold_left (fun s a => comp_stmt cf a s) p (mkCst [new_fcomp true] [] None))
     with (comp_list cf p (stk (new_fcomp true) [] [])).
-  pose proof (comp_list_N cf p Hp (new_fcomp true) [] []) as H. rewrite Hn in H. specialize (H eq_refl).
-  cbn [fc_locals fc_depth fc_ups new_fcomp map] in H. rewrite El in H.
+  pose proof (comp_list_N_noloop cf p Hp (new_fcomp true) [] []) as H. rewrite Hn in H. specialize (H eq_refl Hk eq_refl).
+  cbn [fc_locals fc_depth fc_ups fc_code new_fcomp map code_size] in H. rewrite El in H. destruct H as (bs & H).
   rewrite H, emits_stk. reflexivity.
 Qed.
 
-(* The side condition of comp_stmt_N cannot be dropped: the pure compiler nstmt compiles a `return` wherever it
-   stands, the stateful one reports "Cannot return from top-level code." in the script compiler. *)
+Theorem compile_scope_stage2_complete : forall cf p code L' U' E' fs',
+  forallb stmt5w p = true -> forallb noret p = true ->
+  nlist cf p 0 [mkLocal None (Some 0) false] [] [] [] 0 None = Some (code, L', U', E', fs') ->
+  compile_scope cf p = Some (fs' ++ [mkFunc (code ++ [INil; IReturn]) 0 0])%list.
+Proof.
+  intros cf p code L' U' E' fs' Hp Hn. apply compile_scope_stage4_complete; [|exact Hn|].
+  - revert Hp. apply forallb_imp. apply stmt5w_stmt6w.
+  - apply orb_true_intro. right. revert Hp. apply forallb_imp. apply stmt5w_nobrk.
+Qed.
+
+(* The side conditions of comp_stmt_N cannot be dropped: the pure compiler nstmt compiles a `return` wherever it
+   stands, the stateful one reports "Cannot return from top-level code." in the script compiler; *)
 Lemma comp_stmt_N_side_condition_needed :
   exists cf s c cs fs, stmt5w s = true /\
-    nstmt cf s (fc_locals c) (fc_depth c) (fc_ups c) (map lev_of cs) fs <> None /\
+    nstmt cf s (fc_locals c) (fc_depth c) (fc_ups c) (map lev_of cs) fs (code_size (fc_code c)) (lc_of c 0) <> None /\
     errd (comp_stmt cf s (stk c cs fs)).
 Proof.
   exists ex_cf, (SReturn (ELit 0)), (new_fcomp true), [], [].
   split; [reflexivity|]. split; [discriminate|]. unfold errd. cbn. discriminate.
+Qed.
+
+(* and with the shipped order of break (jump first, scope-end operations after it, where they are never executed)
+   the two compilers emit different code for a break that leaves a scope with a local *)
+Lemma comp_stmt_N_break_order_needed :
+  exists p, forallb (stmt6 true false true false) p = true /\
+    (exists funs, compile_scope (mkCfg 256 256 true true false) p = Some funs /\
+       option_map (fun r => (fst (fst (fst (fst r))) ++ [INil; IReturn])%list)
+                  (nlist (mkCfg 256 256 true true false) p 0 [mkLocal None (Some 0) false] [] [] [] 0 None)
+       = Some (f_code (last funs dfunc))) /\
+    (exists funs, compile_scope (mkCfg 256 256 false true false) p = Some funs /\
+       option_map (fun r => (fst (fst (fst (fst r))) ++ [INil; IReturn])%list)
+                  (nlist (mkCfg 256 256 false true false) p 0 [mkLocal None (Some 0) false] [] [] [] 0 None)
+       <> Some (f_code (last funs dfunc))).
+Proof.
+  exists [SLoop 1 3 [SDecl 2 (ELit 7); SBreak]].
+  split; [reflexivity|]. split.
+  - eexists. split; [vm_compute; reflexivity|]. vm_compute. reflexivity.
+  - eexists. split; [vm_compute; reflexivity|]. vm_compute. discriminate.
 Qed.
 
 (* a three-level example: the hypotheses are satisfiable by a program that captures through an enclosing function
@@ -1088,11 +1997,39 @@ Example ex_stage2_shape :
   exists funs, compile_scope ex_cf p = Some funs /\ map f_nups funs = [1; 2; 1; 0].
 Proof. cbv zeta. split; [reflexivity|]. split; [reflexivity|]. eexists. split; [vm_compute; reflexivity|reflexivity]. Qed.
 
+(* nested loops, if / else, break and continue out of scopes with captured locals, a loop inside a function:
+   the hypotheses of stage 4 are satisfiable, and both compilers agree on it *)
+Example ex_stage4_shape :
+  let cfx := mkCfg 256 256 true true false in
+  let p := [ SLam 20 [] [SReturn (ELit 0)]; SDecl 22 (ELit 0);
+             SLoop 1 4 [ SDecl 2 (EAdd (EVar 1) (ELit 10));
+                         SLam 3 [] [SAssign 2 (EAdd (EVar 2) (ELit 1)); SReturn (EAdd (EVar 2) (EVar 1))];
+                         SIf (EVar 1) (ELit 1) [SAssign 20 (EVar 3)] [ SIf (EVar 1) (ELit 2) [SContinue] [] ];
+                         SBlock [ SDecl 4 (ELit 7); SLam 5 [] [SReturn (EAdd (EVar 4) (EVar 2))];
+                                  SIf (ELit 2) (EVar 1) [SAssign 22 (ECall 5 []); SBreak] [];
+                                  SPrint (ECall 5 []) ];
+                         SPrint (ECall 3 []) ];
+             SFun 30 [31] [ SDecl 32 (ELit 0);
+                            SLoop 33 3 [ SLoop 34 2 [ SIf (EVar 34) (ELit 1) [SContinue] [SBreak];
+                                                      SAssign 32 (EAdd (EVar 32) (EAdd (EVar 33) (EVar 31))) ] ];
+                            SReturn (EVar 32) ];
+             SPrint (ECall 30 [ELit 100]) ] in
+  forallb (stmt6 true false true false) p = true /\
+  exists funs, compile_scope cfx p = Some funs /\ List.length funs = 5.
+Proof. cbv zeta. split; [reflexivity|]. eexists. split; [vm_compute; reflexivity|reflexivity]. Qed.
+
 Print Assumptions resolve_variable_stk.
 Print Assumptions comp_expr_N.
 Print Assumptions comp_stmt_N.
 Print Assumptions comp_list_N.
+Print Assumptions comp_func_N.
 Print Assumptions nstmt_len.
+Print Assumptions nlist_len.
+Print Assumptions nstmt_pos_lc_irrelevant.
 Print Assumptions comp_stmt_ret_err.
+Print Assumptions compile_scope_stage4_shape.
+Print Assumptions compile_scope_stage3_shape.
 Print Assumptions compile_scope_stage2_shape.
+Print Assumptions compile_scope_stage2_shape5.
+Print Assumptions compile_scope_stage4_complete.
 Print Assumptions compile_scope_stage2_complete.
